@@ -1,781 +1,3 @@
-// GENERATED by harness/gen/zoo.py - build artefact, do not edit
-pub const GEN_HASH: &str = "c524e108ea37b98f";
-#[derive(SystemData)] pub struct Z6_0<'a>(pub Option<Read<'a, N3>>, pub Read<'a, D2>);
-shredh::zoo_case!(c6, 6, 'a, Z6_0<'a>);
-#[derive(SystemData)] pub struct Z14_1<'a> { f0: Option<ReadExpect<'a, N1>>, }
-#[derive(SystemData)] pub struct Z14_0<'a>(pub Z14_1<'a>);
-shredh::zoo_case!(c14, 14, 'a, Z14_0<'a>);
-#[derive(SystemData)] pub struct Z22_0<'a> { f0: Read<'a, D3, Hc<D0>>, f1: PhantomData<fn() -> N2>, }
-shredh::zoo_case!(c22, 22, 'a, Z22_0<'a>);
-#[derive(SystemData)] pub struct Z30_0<'a> { pub f0: (Option<WriteExpect<'a, N2>>, ), }
-shredh::zoo_case!(c30, 30, 'a, Z30_0<'a>);
-#[derive(SystemData)] pub struct Z38_0<'a>(Read<'a, D1, DefaultProvider>);
-shredh::zoo_case!(c38, 38, 'a, ((Read<'a, D1, Hc<D0>>, ), Z38_0<'a>, ));
-shredh::zoo_case!(c46, 46, 'a, (ReadExpect<'a, N1>, ));
-#[derive(SystemData)] pub struct Z54_1<'a>(Write<'a, D3>);
-#[derive(SystemData)] pub struct Z54_0<'a>(Z54_1<'a>, (Read<'a, D3, Hc<D1>>, ));
-shredh::zoo_case!(c54, 54, 'a, Z54_0<'a>);
-#[derive(SystemData)] pub struct Z62_0<'a>(PhantomData<&'a u8>);
-shredh::zoo_case!(c62, 62, 'a, Z62_0<'a>);
-#[derive(SystemData)] pub struct Z70_1<'a> { pub f0: Read<'a, D1>, }
-#[derive(SystemData)] pub struct Z70_2<'a, T0>(pub Read<'a, T0, Hc<D1>>) where T0: Debug + Resource + for<'b> Hrtb<'b>;
-#[derive(SystemData)] pub struct Z70_0<'a> { pub f0: Z70_1<'a>, pub f1: Z70_2<'a, D0>, }
-shredh::zoo_case!(c70, 70, 'a, Z70_0<'a>);
-#[derive(SystemData)] pub struct Z78_0<'a> { pub f0: Write<'a, D1, Hc<D0>>, }
-shredh::zoo_case!(c78, 78, 'a, Z78_0<'a>);
-shredh::zoo_case!(c86, 86, 'a, ((), Write<'a, D3>, Write<'a, D1>, ));
-shredh::zoo_case!(c94, 94, 'a, ((Read<'a, D2, DefaultProvider>, ), Read<'a, D0, Hc<D2>>, ));
-#[derive(SystemData)] pub struct Z102_0<'a, T0, T1>(pub Read<'a, T0, DefaultProvider>, pub WriteExpect<'a, T1>, pub PhantomData<u8>) where T0: Resource, T1: Debug + Resource + for<'b> Hrtb<'b>;
-shredh::zoo_case!(c102, 102, 'a, Z102_0<'a, D0, N1>);
-#[derive(SystemData)] pub struct Z110_0<'a>(pub (PhantomData<dyn Send>, ), pub Read<'a, D3, Hc<D1>>);
-shredh::zoo_case!(c110, 110, 'a, Z110_0<'a>);
-#[derive(SystemData)] pub struct Z118_0<'a, T0: Resource + ZRes> { f0: Write<'a, D1>, f1: (), f2: Option<Read<'a, T0>>, }
-shredh::zoo_case!(c118, 118, 'a, Z118_0<'a, D1>);
-#[derive(SystemData)] pub struct Z126_0<'a, T0: Resource + ZRes> { f0: (Write<'a, D0, Hc<D3>>, ), f1: Option<Write<'a, T0>>, }
-shredh::zoo_case!(c126, 126, 'a, Z126_0<'a, D3>);
-shredh::zoo_case!(c134, 134, 'a, Read<'a, N2, PanicHandler>);
-shredh::zoo_case!(c142, 142, 'a, (Read<'a, D2>, Read<'a, D0, DefaultProvider>, ));
-#[derive(SystemData)] pub struct Z150_0<'a> { f0: Write<'a, D3, Hc<D0>>, }
-shredh::zoo_case!(c150, 150, 'a, (Z150_0<'a>, ));
-#[derive(SystemData)] pub struct Z158_0<'a, U0: SystemData<'a>>(pub Option<WriteExpect<'a, N3>>, pub U0);
-shredh::zoo_case!(c158, 158, 'a, Z158_0<'a, Read<'a, N3, PanicHandler>>);
-#[derive(SystemData)] pub struct Z166_0<'a>(pub (ReadExpect<'a, N2>, ));
-shredh::zoo_case!(c166, 166, 'a, Z166_0<'a>);
-#[derive(SystemData)] pub struct Z174_0<'a> { f0: WriteExpect<'a, N3>, f1: PhantomData<u8>, }
-shredh::zoo_case!(c174, 174, 'a, Z174_0<'a>);
-shredh::zoo_case!(c182, 182, 'a, (((), ), ));
-#[derive(SystemData)] pub struct Z190_0<'a> { f0: Read<'a, D1, Hc<D0>>, }
-shredh::zoo_case!(c190, 190, 'a, ((Write<'a, D0, DefaultProvider>, ), Z190_0<'a>, ));
-shredh::zoo_case!(c198, 198, 'a, (Write<'a, D0>, ));
-#[derive(SystemData)] pub struct Z206_1<'a> { f0: Write<'a, D1, Hc<D2>>, }
-#[derive(SystemData)] pub struct Z206_2<'a> { f0: Write<'a, D1, PanicHandler>, }
-#[derive(SystemData)] pub struct Z206_0<'a>(pub Z206_1<'a>, pub Z206_2<'a>);
-shredh::zoo_case!(c206, 206, 'a, Z206_0<'a>);
-#[derive(SystemData)] pub struct Z214_0<'a>(PhantomData<&'a u8>);
-shredh::zoo_case!(c214, 214, 'a, Z214_0<'a>);
-shredh::zoo_case!(c222, 222, 'a, ((Write<'a, D0, Hc<D1>>, ), (ReadExpect<'a, D0>, ), ));
-shredh::zoo_case!(c230, 230, 'a, (Read<'a, D1>, ));
-shredh::zoo_case!(c238, 238, 'a, (PhantomData<dyn Send>, Read<'a, D0, PanicHandler>, Read<'a, D0, DefaultProvider>, ));
-#[derive(SystemData)] pub struct Z246_0<'a>(pub Read<'a, D2, Hc<D0>>);
-shredh::zoo_case!(c246, 246, 'a, (Z246_0<'a>, Write<'a, D2, PanicHandler>, ));
-#[derive(SystemData)] pub struct Z254_0<'a, 'x, T0: Debug + Resource, T1: Debug + Resource + for<'b> Hrtb<'b>>(WriteExpect<'a, T0>, Read<'a, T1, PanicHandler>, PhantomData<&'x i64>);
-shredh::zoo_case!(c254, 254, 'a, Z254_0<'a, 'a, N3, N0>);
-#[derive(SystemData)] pub struct Z262_1<'a> { f0: Option<Write<'a, D3, PanicHandler>>, }
-#[derive(SystemData)] pub struct Z262_0<'a>(pub Read<'a, D3>, pub Z262_1<'a>);
-shredh::zoo_case!(c262, 262, 'a, Z262_0<'a>);
-shredh::zoo_case!(c270, 270, 'a, (Option<WriteExpect<'a, N2>>, Option<ReadExpect<'a, N2>>, Option<Write<'a, N1, PanicHandler>>, ));
-#[derive(SystemData)] pub struct Z278_0<'a> { f0: (PhantomData<D0>, ), f1: Option<Write<'a, D1>>, }
-shredh::zoo_case!(c278, 278, 'a, Z278_0<'a>);
-shredh::zoo_case!(c286, 286, 'a, Write<'a, D1, DefaultProvider>);
-shredh::zoo_case!(c294, 294, 'a, (Write<'a, D0, PanicHandler>, Option<ReadExpect<'a, D0>>, ));
-shredh::zoo_case!(c302, 302, 'a, ((Read<'a, D1, Hc<D0>>, ), ));
-#[derive(SystemData)] pub struct Z310_0<'a>(PhantomData<&'a u8>, Read<'a, D1, DefaultProvider>);
-shredh::zoo_case!(c310, 310, 'a, Z310_0<'a>);
-#[derive(SystemData)] pub struct Z318_0<'a>((Read<'a, D1, Hc<D0>>, ));
-shredh::zoo_case!(c318, 318, 'a, Z318_0<'a>);
-#[derive(SystemData)] pub struct Z326_0<'a, T0: Resource, T1: Debug + Resource + for<'b> Hrtb<'b> + Default> { f0: Write<'a, T0, DefaultProvider>, f1: Read<'a, T1>, }
-shredh::zoo_case!(c326, 326, 'a, Z326_0<'a, D1, D1>);
-#[derive(SystemData)] pub struct Z334_1<'a> { f0: Write<'a, N3, PanicHandler>, }
-#[derive(SystemData)] pub struct Z334_0<'a> { pub f0: Z334_1<'a>, }
-shredh::zoo_case!(c334, 334, 'a, Z334_0<'a>);
-#[derive(SystemData)] pub struct Z342_0<'a, T0: Debug + Resource> { pub f0: Read<'a, T0, Hc<D3>>, }
-#[derive(SystemData)] pub struct Z342_1<'a>(pub Option<Read<'a, D3>>);
-shredh::zoo_case!(c342, 342, 'a, (Z342_0<'a, D0>, Z342_1<'a>, ));
-shredh::zoo_case!(c350, 350, 'a, (Read<'a, D0, DefaultProvider>, ));
-#[derive(SystemData)] pub struct Z358_1<'a>(Read<'a, D3, Hc<D0>>);
-#[derive(SystemData)] pub struct Z358_0<'a>(Z358_1<'a>, (Write<'a, D0, DefaultProvider>, ));
-shredh::zoo_case!(c358, 358, 'a, Z358_0<'a>);
-#[derive(SystemData)] pub struct Z366_0<'a>(pub Write<'a, D3>);
-shredh::zoo_case!(c366, 366, 'a, Z366_0<'a>);
-#[derive(SystemData)] pub struct Z374_1<'a, T0: Resource + ZRes> { pub f0: Write<'a, T0, Hc<D3>>, }
-#[derive(SystemData)] pub struct Z374_2<'a> { f0: PhantomData<&'a u8>, }
-#[derive(SystemData)] pub struct Z374_0<'a> { f0: Z374_1<'a, D2>, f1: Z374_2<'a>, }
-shredh::zoo_case!(c374, 374, 'a, Z374_0<'a>);
-shredh::zoo_case!(c382, 382, 'a, ((), ));
-shredh::zoo_case!(c390, 390, 'a, ((), Write<'a, D0>, (), ));
-shredh::zoo_case!(c398, 398, 'a, (Read<'a, D0, DefaultProvider>, (WriteExpect<'a, D0>, ), ));
-#[derive(SystemData)] pub struct Z406_0<'a>(Option<Write<'a, D2>>, Read<'a, D0>, Read<'a, D2, DefaultProvider>);
-shredh::zoo_case!(c406, 406, 'a, Z406_0<'a>);
-#[derive(SystemData)] pub struct Z414_1<'a>(WriteExpect<'a, N2>);
-#[derive(SystemData)] pub struct Z414_0<'a>(pub Z414_1<'a>, pub Option<ReadExpect<'a, N2>>);
-shredh::zoo_case!(c414, 414, 'a, Z414_0<'a>);
-#[derive(SystemData)] pub struct Z422_0<'a, U0: SystemData<'a>, U1: SystemData<'a>> { pub f0: U0, pub f1: U1, pub f2: Read<'a, D3>, }
-shredh::zoo_case!(c422, 422, 'a, Z422_0<'a, Read<'a, D3, DefaultProvider>, ()>);
-#[derive(SystemData)] pub struct Z430_1<'a, T0: Resource>(pub WriteExpect<'a, T0>);
-#[derive(SystemData)] pub struct Z430_0<'a, U0: SystemData<'a>> { f0: Z430_1<'a, N3>, f1: U0, }
-shredh::zoo_case!(c430, 430, 'a, Z430_0<'a, ()>);
-shredh::zoo_case!(c438, 438, 'a, WriteExpect<'a, D3>);
-shredh::zoo_case!(c446, 446, 'a, (Write<'a, D1, DefaultProvider>, Read<'a, D1>, ));
-shredh::zoo_case!(c454, 454, 'a, (((), ), ));
-#[derive(SystemData)] pub struct Z462_0<'a, U0, T0: Resource>(pub U0, pub Read<'a, T0, PanicHandler>) where U0: SystemData<'a>;
-shredh::zoo_case!(c462, 462, 'a, Z462_0<'a, Write<'a, N2, PanicHandler>, N2>);
-#[derive(SystemData)] pub struct Z470_0<'a>(pub (Read<'a, D1, Hc<D2>>, ));
-shredh::zoo_case!(c470, 470, 'a, Z470_0<'a>);
-#[derive(SystemData)] pub struct Z478_0<'a, T0: Resource, U0> where U0: SystemData<'a> { pub f0: ReadExpect<'a, T0>, pub f1: U0, }
-shredh::zoo_case!(c478, 478, 'a, Z478_0<'a, D3, Read<'a, D3>>);
-#[derive(SystemData)] pub struct Z486_1<'a> { f0: ReadExpect<'a, D0>, }
-#[derive(SystemData)] pub struct Z486_0<'a> { pub f0: Z486_1<'a>, }
-shredh::zoo_case!(c486, 486, 'a, Z486_0<'a>);
-#[derive(SystemData)] pub struct Z494_0<'a>(Read<'a, D0, Hc<D2>>);
-shredh::zoo_case!(c494, 494, 'a, ((Write<'a, D2>, ), Z494_0<'a>, ));
-shredh::zoo_case!(c502, 502, 'a, (PhantomData<(Write<'a, D1>,)>, ));
-#[derive(SystemData)] pub struct Z510_1<'a> { pub f0: Option<Write<'a, D0, PanicHandler>>, }
-#[derive(SystemData)] pub struct Z510_0<'a>((Read<'a, D0, PanicHandler>, ), Z510_1<'a>);
-shredh::zoo_case!(c510, 510, 'a, Z510_0<'a>);
-shredh::zoo_case!(c518, 518, 'a, (Option<WriteExpect<'a, N1>>, ));
-#[derive(SystemData)] pub struct Z526_0<'a> { f0: (Option<Write<'a, D2, PanicHandler>>, ), f1: (Write<'a, D1, Hc<D2>>, ), }
-shredh::zoo_case!(c526, 526, 'a, Z526_0<'a>);
-shredh::zoo_case!(c534, 534, 'a, (Write<'a, N2, PanicHandler>, ));
-shredh::zoo_case!(c542, 542, 'a, (WriteExpect<'a, D2>, Option<ReadExpect<'a, D2>>, Write<'a, D1>, ));
-#[derive(SystemData)] pub struct Z550_0<'a, T0>(pub Write<'a, T0, Hc<D0>>) where T0: Debug + Resource + for<'b> Hrtb<'b>;
-shredh::zoo_case!(c550, 550, 'a, (Write<'a, D0, Hc<D2>>, Z550_0<'a, D2>, ));
-#[derive(SystemData)] pub struct Z558_0<'a, U0>(WriteExpect<'a, N1>, Option<Write<'a, N1, PanicHandler>>, U0) where U0: SystemData<'a>;
-shredh::zoo_case!(c558, 558, 'a, Z558_0<'a, Write<'a, D0>>);
-#[derive(SystemData)] pub struct Z566_1<'a> { pub f0: Write<'a, D0, PanicHandler>, }
-#[derive(SystemData)] pub struct Z566_0<'a, T0: Resource>(Z566_1<'a>, Read<'a, T0, Hc<D0>>);
-shredh::zoo_case!(c566, 566, 'a, Z566_0<'a, D2>);
-#[derive(SystemData)] pub struct Z574_0<'a> { f0: ReadExpect<'a, N1>, f1: (), f2: Option<Write<'a, N1, PanicHandler>>, }
-shredh::zoo_case!(c574, 574, 'a, Z574_0<'a>);
-shredh::zoo_case!(c582, 582, 'a, ((Write<'a, D1, PanicHandler>, ), Read<'a, D1, Hc<D0>>, ));
-shredh::zoo_case!(c590, 590, 'a, ());
-shredh::zoo_case!(c598, 598, 'a, (Read<'a, D0, Hc<D2>>, Read<'a, D2, Hc<D0>>, ));
-#[derive(SystemData)] pub struct Z606_0<'a>(Option<Read<'a, N1>>);
-shredh::zoo_case!(c606, 606, 'a, (Z606_0<'a>, ));
-shredh::zoo_case!(c614, 614, 'a, (Read<'a, D1, DefaultProvider>, Read<'a, D2>, Write<'a, D2, PanicHandler>, ));
-shredh::zoo_case!(c622, 622, 'a, (PhantomData<fn() -> N2>, ((), ), ));
-#[derive(SystemData)] pub struct Z630_1<'a, T0: Debug + Resource + for<'b> Hrtb<'b>>(Write<'a, T0, DefaultProvider>);
-#[derive(SystemData)] pub struct Z630_0<'a> { f0: Z630_1<'a, D2>, }
-shredh::zoo_case!(c630, 630, 'a, Z630_0<'a>);
-#[derive(SystemData)] pub struct Z638_0<'a, T0>(pub ReadExpect<'a, T0>) where T0: Resource + ZRes;
-shredh::zoo_case!(c638, 638, 'a, (Z638_0<'a, N2>, ((), ), ));
-#[derive(SystemData)] pub struct Z646_0<'a, T0> where T0: Resource { pub f0: (PhantomData<[u32]>, ), pub f1: Option<ReadExpect<'a, T0>>, }
-shredh::zoo_case!(c646, 646, 'a, Z646_0<'a, D2>);
-#[derive(SystemData)] pub struct Z654_0<'a, T0> where T0: Debug + Resource + for<'b> Hrtb<'b> { f0: Option<Read<'a, T0>>, f1: Read<'a, D0>, }
-shredh::zoo_case!(c654, 654, 'a, Z654_0<'a, D0>);
-#[derive(SystemData)] pub struct Z662_1<'a>(PhantomData<&'a u8>);
-#[derive(SystemData)] pub struct Z662_0<'a> { pub f0: Z662_1<'a>, pub f1: (Read<'a, D2, DefaultProvider>, ), }
-shredh::zoo_case!(c662, 662, 'a, Z662_0<'a>);
-#[derive(SystemData)] pub struct Z670_0<'a> { f0: Write<'a, D1, DefaultProvider>, f1: PhantomData<str>, f2: PhantomData<dyn Send>, }
-shredh::zoo_case!(c670, 670, 'a, Z670_0<'a>);
-#[derive(SystemData)] pub struct Z678_0<'a>(pub (Read<'a, D1, Hc<D2>>, ), pub (Read<'a, D2>, ));
-shredh::zoo_case!(c678, 678, 'a, Z678_0<'a>);
-shredh::zoo_case!(c686, 686, 'a, ((), ReadExpect<'a, N1>, Option<WriteExpect<'a, N1>>, ));
-#[derive(SystemData)] pub struct Z694_0<'a> { pub f0: WriteExpect<'a, D0>, pub f1: Option<ReadExpect<'a, D0>>, pub f2: Read<'a, N1, PanicHandler>, }
-shredh::zoo_case!(c694, 694, 'a, Z694_0<'a>);
-#[derive(SystemData)] pub struct Z702_1<'a, T0>(WriteExpect<'a, T0>) where T0: Debug + Resource + for<'b> Hrtb<'b>;
-#[derive(SystemData)] pub struct Z702_2<'a> { pub f0: Read<'a, D0, Hc<D1>>, }
-#[derive(SystemData)] pub struct Z702_0<'a>(pub Z702_1<'a, D1>, pub Z702_2<'a>);
-shredh::zoo_case!(c702, 702, 'a, Z702_0<'a>);
-shredh::zoo_case!(c710, 710, 'a, (ReadExpect<'a, D0>, Read<'a, D1>, Write<'a, D0>, ));
-#[derive(SystemData)] pub struct Z718_0<'a, T0: Debug + Resource> { f0: Write<'a, T0, DefaultProvider>, f1: Option<WriteExpect<'a, N2>>, f2: Option<Read<'a, D3>>, }
-shredh::zoo_case!(c718, 718, 'a, Z718_0<'a, D3>);
-#[derive(SystemData)] pub struct Z726_1<'a> { f0: PhantomData<&'a u8>, }
-#[derive(SystemData)] pub struct Z726_0<'a>(Z726_1<'a>, (Read<'a, D2, Hc<D1>>, ));
-shredh::zoo_case!(c726, 726, 'a, Z726_0<'a>);
-shredh::zoo_case!(c734, 734, 'a, (ReadExpect<'a, N2>, PhantomData<D0>, Option<Write<'a, D0, PanicHandler>>, ));
-#[derive(SystemData)] pub struct Z742_0<'a, U0: SystemData<'a>> { f0: ReadExpect<'a, N3>, f1: Write<'a, D1, PanicHandler>, f2: U0, }
-shredh::zoo_case!(c742, 742, 'a, Z742_0<'a, Read<'a, D1>>);
-#[derive(SystemData)] pub struct Z750_1<'a> { f0: Read<'a, D1, Hc<D0>>, }
-#[derive(SystemData)] pub struct Z750_0<'a>(pub Z750_1<'a>, pub (Read<'a, D1, DefaultProvider>, ));
-shredh::zoo_case!(c750, 750, 'a, Z750_0<'a>);
-shredh::zoo_case!(c758, 758, 'a, (Option<Write<'a, N2, PanicHandler>>, ReadExpect<'a, D1>, (), ));
-#[derive(SystemData)] pub struct Z766_0<'a, T0: Resource, T1: Debug + Resource + for<'b> Hrtb<'b>, T2: Resource> { pub f0: Option<WriteExpect<'a, T0>>, pub f1: ReadExpect<'a, T1>, pub f2: Option<WriteExpect<'a, T2>>, }
-shredh::zoo_case!(c766, 766, 'a, Z766_0<'a, N3, N3, N3>);
-shredh::zoo_case!(c774, 774, 'a, ((Write<'a, D0, Hc<D3>>, ), (Write<'a, D0, Hc<D3>>, ), ));
-shredh::zoo_case!(c782, 782, 'a, (Write<'a, D3, DefaultProvider>, Write<'a, D1>, Option<WriteExpect<'a, D1>>, ));
-#[derive(SystemData)] pub struct Z790_0<'a, T0> where T0: Debug + Resource + for<'b> Hrtb<'b> { f0: Read<'a, T0, PanicHandler>, f1: Write<'a, D1>, f2: (), }
-shredh::zoo_case!(c790, 790, 'a, Z790_0<'a, D1>);
-#[derive(SystemData)] pub struct Z798_1<'a, T0: Debug + Resource + for<'b> Hrtb<'b> + Default>(pub Write<'a, T0, DefaultProvider>);
-#[derive(SystemData)] pub struct Z798_2<'a, T0>(Write<'a, T0, Hc<D3>>) where T0: Debug + Resource + for<'b> Hrtb<'b>;
-#[derive(SystemData)] pub struct Z798_0<'a>(pub Z798_1<'a, D0>, pub Z798_2<'a, D0>);
-shredh::zoo_case!(c798, 798, 'a, Z798_0<'a>);
-shredh::zoo_case!(c806, 806, 'a, (Write<'a, D0>, WriteExpect<'a, D0>, Read<'a, D2, DefaultProvider>, ));
-#[derive(SystemData)] pub struct Z814_0<'a, T0> where T0: Resource { pub f0: (), pub f1: Write<'a, D1, DefaultProvider>, pub f2: Option<WriteExpect<'a, T0>>, }
-shredh::zoo_case!(c814, 814, 'a, Z814_0<'a, D1>);
-#[derive(SystemData)] pub struct Z822_1<'a> { pub f0: Option<Write<'a, D2, PanicHandler>>, }
-#[derive(SystemData)] pub struct Z822_2<'a>(pub WriteExpect<'a, D2>);
-#[derive(SystemData)] pub struct Z822_0<'a>(pub Z822_1<'a>, pub Z822_2<'a>);
-shredh::zoo_case!(c822, 822, 'a, Z822_0<'a>);
-shredh::zoo_case!(c830, 830, 'a, (Write<'a, D2>, WriteExpect<'a, D3>, Read<'a, D3, PanicHandler>, ));
-#[derive(SystemData)] pub struct Z838_0<'a> { f0: WriteExpect<'a, D1>, f1: Write<'a, D2, DefaultProvider>, f2: Write<'a, D1, DefaultProvider>, }
-shredh::zoo_case!(c838, 838, 'a, Z838_0<'a>);
-#[derive(SystemData)] pub struct Z846_0<'a, U0: SystemData<'a>>(pub (Write<'a, D2, Hc<D0>>, ), pub U0);
-shredh::zoo_case!(c846, 846, 'a, Z846_0<'a, (Read<'a, D2, PanicHandler>, )>);
-shredh::zoo_case!(c854, 854, 'a, (Write<'a, D3, PanicHandler>, Read<'a, D3, DefaultProvider>, Read<'a, N0, PanicHandler>, ));
-#[derive(SystemData)] pub struct Z862_0<'a, U0: SystemData<'a>, U1> where U1: SystemData<'a> { pub f0: U0, pub f1: Read<'a, D1, PanicHandler>, pub f2: U1, }
-shredh::zoo_case!(c862, 862, 'a, Z862_0<'a, Write<'a, D1>, Write<'a, D3, DefaultProvider>>);
-#[derive(SystemData)] pub struct Z870_0<'a> { f0: PhantomData<&'a u8>, }
-shredh::zoo_case!(c870, 870, 'a, ((Read<'a, D3, Hc<D1>>, ), Z870_0<'a>, ));
-shredh::zoo_case!(c878, 878, 'a, (PhantomData<str>, Write<'a, D2, DefaultProvider>, Option<Write<'a, D2>>, ));
-shredh::zoo_case!(c886, 886, 'a, (Option<Read<'a, D3, PanicHandler>>, Read<'a, D0, PanicHandler>, WriteExpect<'a, D3>, ));
-#[derive(SystemData)] pub struct Z894_1<'a, T0: Resource>(Option<Write<'a, T0>>);
-#[derive(SystemData)] pub struct Z894_0<'a>((Write<'a, D3, DefaultProvider>, ), Z894_1<'a, D3>);
-shredh::zoo_case!(c894, 894, 'a, Z894_0<'a>);
-shredh::zoo_case!(c902, 902, 'a, (Write<'a, N2, PanicHandler>, ));
-shredh::zoo_case!(c910, 910, 'a, ((), (), (), (), (), ));
-shredh::zoo_case!(c918, 918, 'a, ((), WriteExpect<'a, D0>, (), (), (), (), ));
-shredh::zoo_case!(c926, 926, 'a, ((), (), Read<'a, D0, Hc<D0>>, (), (), (), (), ));
-shredh::zoo_case!(c934, 934, 'a, ((), (), Option<Write<'a, N1, PanicHandler>>, (), (), (), (), (), ));
-shredh::zoo_case!(c942, 942, 'a, ((), ReadExpect<'a, N2>, (), (), (), (), (), (), (), (), ));
-shredh::zoo_case!(c950, 950, 'a, ((), (), (), (), (), (), (), (), (), PhantomData<[u32]>, ));
-shredh::zoo_case!(c958, 958, 'a, ((), (), (), (), (), (), Write<'a, D2>, (), (), (), (), (), (), ));
-shredh::zoo_case!(c966, 966, 'a, (Read<'a, D3>, (), (), (), (), (), (), (), (), (), (), (), (), (), (), ));
-shredh::zoo_case!(c974, 974, 'a, ((), (), (), (), (), (), (), (), Write<'a, D0, Hc<D0>>, (), (), (), (), (), (), ));
-shredh::zoo_case!(c982, 982, 'a, (Read<'a, D2, DefaultProvider>, (), (), (), (), (), (), (), (), (), (), (), (), (), (), (), (), (), (), (), (), ));
-shredh::zoo_case!(c990, 990, 'a, ((), (), (), (), (), (), (), (), Option<Write<'a, D2, PanicHandler>>, (), (), (), (), (), (), (), (), (), (), (), (), ));
-shredh::zoo_case!(c998, 998, 'a, ((), (), (), (), (), (), (), (), (), (), (), (), (), (), (), (), Option<Write<'a, N1, PanicHandler>>, (), (), (), (), ));
-shredh::zoo_case!(c1006, 1006, 'a, ((), (), Read<'a, D1, DefaultProvider>, (), (), (), (), (), (), (), (), (), (), (), (), (), (), (), (), (), (), (), (), (), (), (), ));
-shredh::zoo_case!(c1014, 1014, 'a, ((), (), (), (), (), (), (), (), (), (), Option<Write<'a, D0>>, (), (), (), (), (), (), (), (), (), (), (), (), (), (), (), ));
-shredh::zoo_case!(c1022, 1022, 'a, ((), (), (), (), (), (), (), (), (), (), (), (), (), (), (), (), (), (), Option<Read<'a, N3>>, (), (), (), (), (), (), (), ));
-shredh::zoo_case!(c1030, 1030, 'a, ((), (), (), (), (), Write<'a, D0>, ));
-shredh::zoo_case!(c1038, 1038, 'a, ((), Read<'a, D1, Hc<D1>>, ));
-shredh::zoo_case!(c1046, 1046, 'a, ((), (), (), (), (), (), (), (), (), (), (), Read<'a, D0, DefaultProvider>, (), (), (), ));
-shredh::zoo_case!(c1054, 1054, 'a, ((), PhantomData<&'a u8>, (), (), (), (), ));
-shredh::zoo_case!(c1062, 1062, 'a, ((), (), (), (), Option<Write<'a, D1, PanicHandler>>, ));
-shredh::zoo_case!(c1070, 1070, 'a, ((), (), (), (), (), (), (), (), (), (), (), (), (), (), (), (), (), (), (), (), (), (), (), (), (), Write<'a, N2, PanicHandler>, ));
-shredh::zoo_case!(c1078, 1078, 'a, ((), (), (), (), (), (), (), (), (), (), Option<ReadExpect<'a, N2>>, (), (), (), (), (), (), (), (), (), (), ));
-shredh::zoo_case!(c1086, 1086, 'a, ((), (), (), (), (), (), (), (), (), (), (), (), (), (), (), (), (), (), (), (), (), (), (), (), Write<'a, D1, Hc<D1>>, (), ));
-shredh::zoo_case!(c1094, 1094, 'a, ((), (), (), (), (), (), (), (), (), (), (), (), (), (), Read<'a, D2, Hc<D2>>, (), (), (), (), (), (), (), (), (), (), (), ));
-shredh::zoo_case!(c1102, 1102, 'a, (Write<'a, D1, PanicHandler>, (), (), (), (), (), (), (), (), (), (), (), (), (), (), (), (), (), (), (), (), (), (), (), (), (), ));
-shredh::zoo_case!(c1110, 1110, 'a, ((), (), (), Read<'a, D2>, (), (), (), (), (), (), (), (), (), ));
-shredh::zoo_case!(c1118, 1118, 'a, ((), (), WriteExpect<'a, D1>, (), (), ));
-shredh::zoo_case!(c1126, 1126, 'a, ((), (), (), (), (), (), (), (), (), (), (), (), (), (), (), (), (), (), (), Write<'a, N0, PanicHandler>, (), (), (), (), (), (), ));
-shredh::zoo_case!(c1134, 1134, 'a, (Read<'a, D0, Hc<D0>>, (), (), (), (), (), (), (), ));
-shredh::zoo_case!(c1142, 1142, 'a, ((), Write<'a, D1, DefaultProvider>, (), (), (), (), ));
-shredh::zoo_case!(c1150, 1150, 'a, ((), (), (), Option<Write<'a, N1>>, (), (), (), (), (), (), (), (), (), ));
-shredh::zoo_case!(c1158, 1158, 'a, ((), (), (), (), (), (), ReadExpect<'a, N0>, (), (), (), (), (), (), ));
-shredh::zoo_case!(c1166, 1166, 'a, (Option<Write<'a, D1, PanicHandler>>, (), (), (), (), (), (), (), (), (), (), (), (), ));
-shredh::zoo_case!(c1174, 1174, 'a, ((), (), Option<Write<'a, N0, PanicHandler>>, (), (), (), (), (), (), (), ));
-shredh::zoo_case!(c1182, 1182, 'a, ((), (), (), (), (), (), (), (), (), (), Write<'a, D0>, (), (), (), (), (), (), (), (), (), (), (), (), (), (), (), ));
-shredh::zoo_case!(c1190, 1190, 'a, ((), (), Read<'a, N1, PanicHandler>, (), (), (), (), (), (), (), (), (), (), (), (), (), (), (), (), (), (), ));
-shredh::zoo_case!(c1198, 1198, 'a, ((), (), (), (), (), (), (), PhantomData<fn() -> N2>, (), (), ));
-shredh::zoo_case!(c1206, 1206, 'a, ((), (), (), (), (), (), (), (), (), (), (), (), (), (), (), (), (), (), (), (), Write<'a, D0>, (), (), (), (), (), ));
-shredh::zoo_case!(c1214, 1214, 'a, ((), (), (), (), (), Option<ReadExpect<'a, N2>>, (), ));
-shredh::zoo_case!(c1222, 1222, 'a, ((), (), (), (), (), (), (), (), (), (), Write<'a, D1, Hc<D1>>, (), (), (), (), (), (), (), (), (), (), (), (), (), (), (), ));
-shredh::zoo_case!(c1230, 1230, 'a, ((), (), (), (), (), (), (), (), (), (), (), (), (), Option<Write<'a, N2, PanicHandler>>, (), (), (), (), (), (), (), (), (), (), (), (), ));
-shredh::zoo_case!(c1238, 1238, 'a, ((), (), (), (), (), Option<Write<'a, D2, PanicHandler>>, (), ));
-shredh::zoo_case!(c1246, 1246, 'a, (Option<Write<'a, D1, PanicHandler>>, (), (), (), (), (), (), (), (), (), ));
-shredh::zoo_case!(c1254, 1254, 'a, ((), (), (), (), PhantomData<&'a u8>, (), ));
-shredh::zoo_case!(c1262, 1262, 'a, ((), (), (), (), (), (), (), (), (), (), Read<'a, D0, Hc<D0>>, (), (), (), (), ));
-shredh::zoo_case!(c1270, 1270, 'a, ((), (), (), (), (), (), (), (), (), Read<'a, N0, PanicHandler>, ));
-shredh::zoo_case!(c1278, 1278, 'a, ((), (), (), (), (), (), (), (), (), (), (), (), (), (), (), (), (), (), (), (), (), (), (), (), Read<'a, D2, Hc<D2>>, (), ));
-shredh::zoo_case!(c1286, 1286, 'a, ((), (), (), (), (), (), (), WriteExpect<'a, N3>, (), (), (), (), (), (), (), (), (), (), (), (), (), (), (), (), (), (), ));
-shredh::zoo_case!(c1294, 1294, 'a, ((), (), (), (), (), (), (), Read<'a, D2, Hc<D2>>, (), (), (), (), (), (), (), (), (), (), (), (), (), (), (), (), (), (), ));
-shredh::zoo_case!(c1302, 1302, 'a, ((), (), (), (), (), (), (), (), (), (), (), (), (), (), (), (), (), (), (), Option<Read<'a, D3>>, (), ));
-shredh::zoo_case!(c1310, 1310, 'a, (Write<'a, D2, Hc<D2>>, (), (), (), (), (), (), (), (), (), (), (), (), (), (), ));
-shredh::zoo_case!(c1318, 1318, 'a, ((), (), (), (), (), (), (), (), (), (), (), (), (), (), (), (), (), (), PhantomData<[u32]>, (), (), ));
-shredh::zoo_case!(c1326, 1326, 'a, ((), (), (), (), (), (), Write<'a, D2>, ));
-shredh::zoo_case!(c1334, 1334, 'a, ((), (), (), (), (), (), (), (), (), (), (), (), (), (), (), (), (), Write<'a, D1, Hc<D1>>, (), (), (), (), (), (), (), (), ));
-shredh::zoo_case!(c1342, 1342, 'a, ((), (), (), (), (), (), (), (), (), (), PhantomData<u8>, (), (), (), (), ));
-shredh::zoo_case!(c1350, 1350, 'a, ((), Write<'a, D3, PanicHandler>, (), (), (), (), (), (), (), (), (), (), (), ));
-shredh::zoo_case!(c1358, 1358, 'a, ((), (), (), (), (), (), (), (), (), (), (), Write<'a, D3, Hc<D3>>, (), (), (), ));
-shredh::zoo_case!(c1366, 1366, 'a, ((), (), (), (), (), (), (), (), (), (), (), (), (), (), (), (), (), (), (), (), Read<'a, D2, Hc<D2>>, ));
-shredh::zoo_case!(c1374, 1374, 'a, ((), (), ReadExpect<'a, D1>, (), (), (), (), (), ));
-shredh::zoo_case!(c1382, 1382, 'a, ((), (), (), (), (), (), (), (), (), (), (), Read<'a, D0, DefaultProvider>, (), (), (), (), (), (), (), (), (), ));
-shredh::zoo_case!(c1390, 1390, 'a, ((), (), (), (), (), (), (), (), (), (), (), (), (), (), Option<Read<'a, D2>>, (), (), (), (), (), (), ));
-shredh::zoo_case!(c1398, 1398, 'a, ((), (), (), (), Write<'a, D1, Hc<D1>>, (), (), (), (), (), (), (), (), ));
-shredh::zoo_case!(c1406, 1406, 'a, (Write<'a, D1>, Write<'a, D0, PanicHandler>, ));
-shredh::zoo_case!(c1414, 1414, 'a, (Option<WriteExpect<'a, D3>>, Write<'a, D0, DefaultProvider>, WriteExpect<'a, D1>, Option<Write<'a, D2, PanicHandler>>, ));
-shredh::zoo_case!(c1422, 1422, 'a, (Option<WriteExpect<'a, N4>>, Write<'a, D1>, Write<'a, D3, PanicHandler>, Option<Write<'a, N5, PanicHandler>>, Write<'a, D2>, Write<'a, N0, PanicHandler>, ));
-shredh::zoo_case!(c1430, 1430, 'a, (WriteExpect<'a, D3>, Option<Write<'a, D5>>, Write<'a, D0>, Write<'a, D1, PanicHandler>, Option<Write<'a, N4>>, Write<'a, D7, DefaultProvider>, Write<'a, D6, PanicHandler>, Option<Write<'a, D2>>, ));
-shredh::zoo_case!(c1438, 1438, 'a, (Option<WriteExpect<'a, D7>>, Write<'a, D12, DefaultProvider>, WriteExpect<'a, N10>, Option<Write<'a, N13>>, Write<'a, D24, DefaultProvider>, WriteExpect<'a, D5>, Option<WriteExpect<'a, N19>>, Write<'a, D4>, Write<'a, D9, PanicHandler>, Option<Write<'a, N15>>, ));
-shredh::zoo_case!(c1446, 1446, 'a, (Write<'a, D23>, Write<'a, D22, PanicHandler>, Option<Write<'a, N1, PanicHandler>>, Write<'a, D6, DefaultProvider>, Write<'a, D11, PanicHandler>, Option<Write<'a, N7, PanicHandler>>, Write<'a, D5>, Write<'a, N18, PanicHandler>, Option<WriteExpect<'a, D3>>, Write<'a, D24, DefaultProvider>, Write<'a, N19, PanicHandler>, Option<Write<'a, N8, PanicHandler>>, ));
-shredh::zoo_case!(c1454, 1454, 'a, (Write<'a, N13, PanicHandler>, Option<WriteExpect<'a, D24>>, Write<'a, D22, DefaultProvider>, Write<'a, D1, PanicHandler>, Option<WriteExpect<'a, D14>>, Write<'a, D6>, Write<'a, D0, PanicHandler>, Option<Write<'a, D20, PanicHandler>>, Write<'a, D12, DefaultProvider>, WriteExpect<'a, N10>, Option<Write<'a, D11>>, Write<'a, D9>, WriteExpect<'a, N5>, Option<Write<'a, N19>>, ));
-shredh::zoo_case!(c1462, 1462, 'a, (WriteExpect<'a, N22>, Option<Write<'a, N4>>, Write<'a, D11, DefaultProvider>, Write<'a, D0, PanicHandler>, Option<WriteExpect<'a, N25>>, Write<'a, D23>, WriteExpect<'a, N1>, Option<Write<'a, N3, PanicHandler>>, Write<'a, D6>, WriteExpect<'a, D9>, Option<Write<'a, N19>>, Write<'a, D13, DefaultProvider>, WriteExpect<'a, D5>, Option<Write<'a, N2, PanicHandler>>, Write<'a, D18, DefaultProvider>, WriteExpect<'a, N14>, ));
-shredh::zoo_case!(c1470, 1470, 'a, (WriteExpect<'a, D3>, Option<WriteExpect<'a, N13>>, Write<'a, D10, DefaultProvider>, WriteExpect<'a, N23>, Option<WriteExpect<'a, N5>>, Write<'a, D16, DefaultProvider>, WriteExpect<'a, D19>, Option<Write<'a, N25>>, Write<'a, D22>, WriteExpect<'a, N4>, Option<Write<'a, N15>>, Write<'a, D17>, Write<'a, D0, PanicHandler>, Option<Write<'a, N11>>, Write<'a, D6, DefaultProvider>, Write<'a, D20, PanicHandler>, Option<Write<'a, N12>>, Write<'a, D1>, ));
-shredh::zoo_case!(c1478, 1478, 'a, (Write<'a, D19, DefaultProvider>, WriteExpect<'a, N4>, Option<Write<'a, D18>>, Write<'a, D9, DefaultProvider>, Write<'a, N0, PanicHandler>, Option<Write<'a, D13, PanicHandler>>, Write<'a, D21>, WriteExpect<'a, N5>, Option<WriteExpect<'a, N10>>, Write<'a, D7, DefaultProvider>, WriteExpect<'a, D12>, Option<WriteExpect<'a, D22>>, Write<'a, D23>, Write<'a, N24, PanicHandler>, Option<WriteExpect<'a, N25>>, Write<'a, D2>, WriteExpect<'a, N6>, Option<WriteExpect<'a, N8>>, Write<'a, D11, DefaultProvider>, WriteExpect<'a, D16>, ));
-shredh::zoo_case!(c1486, 1486, 'a, (Write<'a, D9>, Write<'a, N23, PanicHandler>, Option<Write<'a, N5>>, Write<'a, D0, DefaultProvider>, Write<'a, N17, PanicHandler>, Option<WriteExpect<'a, D2>>, Write<'a, D24>, WriteExpect<'a, D6>, Option<Write<'a, N19>>, Write<'a, D13, DefaultProvider>, Write<'a, D10, PanicHandler>, Option<Write<'a, D15, PanicHandler>>, Write<'a, D3>, Write<'a, N14, PanicHandler>, Option<WriteExpect<'a, D4>>, Write<'a, D16, DefaultProvider>, WriteExpect<'a, D1>, Option<Write<'a, N7>>, Write<'a, D11, DefaultProvider>, Write<'a, N20, PanicHandler>, Option<WriteExpect<'a, D22>>, Write<'a, D18, DefaultProvider>, ));
-shredh::zoo_case!(c1494, 1494, 'a, (Option<WriteExpect<'a, N4>>, Write<'a, D7, DefaultProvider>, Write<'a, N23, PanicHandler>, Option<Write<'a, N13, PanicHandler>>, Write<'a, D16>, Write<'a, N17, PanicHandler>, Option<Write<'a, N5, PanicHandler>>, Write<'a, D21, DefaultProvider>, Write<'a, N11, PanicHandler>, Option<Write<'a, D6, PanicHandler>>, Write<'a, D19>, Write<'a, N2, PanicHandler>, Option<Write<'a, N15, PanicHandler>>, Write<'a, D18, DefaultProvider>, Write<'a, N10, PanicHandler>, Option<Write<'a, N8, PanicHandler>>, Write<'a, D25, DefaultProvider>, WriteExpect<'a, N0>, Option<WriteExpect<'a, N1>>, Write<'a, D14, DefaultProvider>, WriteExpect<'a, N20>, Option<WriteExpect<'a, N24>>, Write<'a, D22>, Write<'a, N12, PanicHandler>, ));
-shredh::zoo_case!(c1502, 1502, 'a, (Write<'a, N19, PanicHandler>, Option<Write<'a, N8, PanicHandler>>, Write<'a, D17>, WriteExpect<'a, N13>, Option<Write<'a, D1>>, Write<'a, D23, DefaultProvider>, WriteExpect<'a, D7>, Option<WriteExpect<'a, D6>>, Write<'a, D22, DefaultProvider>, WriteExpect<'a, N11>, Option<WriteExpect<'a, D25>>, Write<'a, D24, DefaultProvider>, WriteExpect<'a, D10>, Option<WriteExpect<'a, N14>>, Write<'a, D9>, Write<'a, D4, PanicHandler>, Option<WriteExpect<'a, N20>>, Write<'a, D21, DefaultProvider>, Write<'a, D3, PanicHandler>, Option<Write<'a, N2, PanicHandler>>, Write<'a, D18>, WriteExpect<'a, D15>, Option<WriteExpect<'a, N0>>, Write<'a, D16, DefaultProvider>, WriteExpect<'a, N5>, Option<WriteExpect<'a, N12>>, ));
-#[derive(SystemData)] pub struct Z1510_1<'a, U0>(U0, (Read<'a, D3, DefaultProvider>, )) where U0: SystemData<'a>;
-#[derive(SystemData)] pub struct Z1510_0<'a, U0: SystemData<'a>> { pub f0: U0, pub f1: Write<'a, D1, DefaultProvider>, pub f2: Read<'a, D0, DefaultProvider>, }
-shredh::zoo_case!(c1510, 1510, 'a, Z1510_0<'a, Z1510_1<'a, Option<Write<'a, N2>>>>);
-#[derive(SystemData)] pub struct Z1518_0<'a, U0, U1> where U0: SystemData<'a>, U1: SystemData<'a> { pub f0: Read<'a, D3>, pub f1: U0, pub f2: U1, }
-shredh::zoo_case!(c1518, 1518, 'a, Z1518_0<'a, Write<'a, D2>, Option<Read<'a, D1, PanicHandler>>>);
-shredh::zoo_case!(c1526, 1526, 'a, ((Read<'a, D4, DefaultProvider>, Write<'a, D1, DefaultProvider>, ), Write<'a, D0, DefaultProvider>, Read<'a, D2>, ));
-#[derive(SystemData)] pub struct Z1534_1<'a>(pub Option<WriteExpect<'a, N0>>, pub (Read<'a, D3>, ));
-#[derive(SystemData)] pub struct Z1534_0<'a, U0: SystemData<'a>>(pub Read<'a, D1>, pub U0, pub Read<'a, D1>);
-shredh::zoo_case!(c1534, 1534, 'a, Z1534_0<'a, Z1534_1<'a>>);
-#[derive(SystemData)] pub struct Z1542_0<'a, 'x, T0: Resource, T1, T2: Debug + Resource + for<'b> Hrtb<'b>> where T1: Debug + Resource + Default { pub f0: Write<'a, T0, Hc<D22>>, pub f1: (), pub f2: PhantomData<&'x i64>, pub f3: Read<'a, T1>, pub f4: Write<'a, D10, DefaultProvider>, pub f5: ReadExpect<'a, T2>, pub f6: Write<'a, N24, PanicHandler>, pub f7: Option<Read<'a, N11>>, pub f8: Option<Write<'a, N16, PanicHandler>>, pub f9: Read<'a, D14, Hc<D4>>, pub f10: Write<'a, D4, Hc<D17>>, pub f11: (), pub f12: PhantomData<u8>, pub f13: Read<'a, D21, DefaultProvider>, }
-shredh::zoo_case!(c1542, 1542, 'a, Z1542_0<'a, 'static, D1, D15, N25>);
-shredh::zoo_case!(c1550, 1550, 'a, ((), PhantomData<D0>, Read<'a, D3>, Write<'a, D6>, Read<'a, D11, PanicHandler>, WriteExpect<'a, N4>, Option<Read<'a, N24>>, Option<Write<'a, D13, PanicHandler>>, Read<'a, D22, Hc<D1>>, Write<'a, D1, Hc<D15>>, (), PhantomData<(Write<'a, D1>,)>, Read<'a, D20>, Write<'a, D7, DefaultProvider>, ReadExpect<'a, D12>, WriteExpect<'a, D17>, Option<ReadExpect<'a, D18>>, Option<WriteExpect<'a, D19>>, Read<'a, D8, Hc<D25>>, Write<'a, D25, Hc<D23>>, (), ));
-shredh::zoo_case!(c1558, 1558, 'a, ((), PhantomData<[u32]>, Read<'a, D10, DefaultProvider>, Write<'a, D5, DefaultProvider>, ReadExpect<'a, N2>, Write<'a, D14, PanicHandler>, Option<Read<'a, N7, PanicHandler>>, Option<Write<'a, D13, PanicHandler>>, Read<'a, D4, Hc<D23>>, Write<'a, D23, Hc<D21>>, ));
-shredh::zoo_case!(c1566, 1566, 'a, (Read<'a, D2, Hc<D5>>, Write<'a, D5, Hc<D6>>, (), PhantomData<str>, Read<'a, D4>, Write<'a, D3, DefaultProvider>, ));
-#[derive(SystemData)] pub struct Z1574_0<'a, T0: Debug + Resource, U0: SystemData<'a>, U1: SystemData<'a>, U2, T1: Debug + Resource, T2: Resource>(pub ReadExpect<'a, T0>, pub U0, pub U1, pub U2, pub Read<'a, T1, Hc<D0>>, pub Write<'a, T2, Hc<D22>>, pub (), pub PhantomData<[u32]>, pub Read<'a, D17, DefaultProvider>, pub Write<'a, D10, DefaultProvider>, pub ReadExpect<'a, N19>, pub WriteExpect<'a, D20>, pub Option<Read<'a, N8>>, pub Option<WriteExpect<'a, N6>>, pub Read<'a, D12, Hc<D14>>, pub Write<'a, D14, Hc<D4>>, pub ()) where U2: SystemData<'a>;
-shredh::zoo_case!(c1574, 1574, 'a, Z1574_0<'a, N23, WriteExpect<'a, D5>, Option<Read<'a, N1>>, Option<Write<'a, N21, PanicHandler>>, D18, D0>);
-shredh::zoo_case!(c1582, 1582, 'a, (Read<'a, D14, PanicHandler>, WriteExpect<'a, N2>, Option<Read<'a, D25>>, Option<Write<'a, N18, PanicHandler>>, Read<'a, D17, Hc<D6>>, Write<'a, D6, Hc<D7>>, (), PhantomData<u8>, Read<'a, D9, DefaultProvider>, Write<'a, D8, DefaultProvider>, Read<'a, D4, PanicHandler>, Write<'a, D24, PanicHandler>, Option<Read<'a, N15, PanicHandler>>, Option<Write<'a, N20, PanicHandler>>, Read<'a, D23, Hc<D0>>, Write<'a, D0, Hc<D5>>, (), PhantomData<fn() -> N2>, Read<'a, D3>, Write<'a, D12>, Read<'a, N10, PanicHandler>, WriteExpect<'a, D19>, Option<Read<'a, N16>>, ));
-#[derive(SystemData)] pub struct Z1590_0<'a, T0, T1, T2>((), PhantomData<[u32]>, Read<'a, T0>, Write<'a, T1, DefaultProvider>, Read<'a, T2, PanicHandler>, WriteExpect<'a, N2>, Option<ReadExpect<'a, N20>>, Option<Write<'a, N18>>, Read<'a, D8, Hc<D25>>, Write<'a, D25, Hc<D22>>, (), PhantomData<T0>, Read<'a, D23>, Write<'a, D19, DefaultProvider>, Read<'a, N9, PanicHandler>, WriteExpect<'a, N12>, Option<Read<'a, N24, PanicHandler>>) where T0: Resource, T1: Debug + Resource + Default, T2: Resource + ZRes;
-shredh::zoo_case!(c1590, 1590, 'a, Z1590_0<'a, D11, D13, N15>);
-#[derive(SystemData)] pub struct Z1598_1<'a>(Read<'a, D1, Hc<D0>>);
-#[derive(SystemData)] pub struct Z1598_0<'a> { pub f0: Z1598_1<'a>, }
-#[derive(SystemData)] pub struct Z1598_2<'a, T0: Resource>(Write<'a, T0, PanicHandler>);
-#[derive(SystemData)] pub struct Z1598_4<'a, T0: Resource + ZRes, T1: Resource + ZRes, T2: Resource + ZRes> { f0: ReadExpect<'a, T0>, f1: Option<Read<'a, T1, PanicHandler>>, f2: Option<Write<'a, D0, PanicHandler>>, f3: Option<ReadExpect<'a, T2>>, }
-#[derive(SystemData)] pub struct Z1598_5<'a, T0: Debug + Resource + for<'b> Hrtb<'b> + Default> { pub f0: Read<'a, T0, DefaultProvider>, pub f1: (), }
-#[derive(SystemData)] pub struct Z1598_3<'a, U0: SystemData<'a>> { pub f0: Z1598_4<'a, D0, D0, D1>, pub f1: Write<'a, D1, DefaultProvider>, pub f2: U0, pub f3: Write<'a, D2, Hc<D0>>, }
-shredh::zoo_case!(c1598, 1598, 'a, (Z1598_0<'a>, ((Write<'a, D2, DefaultProvider>, ), Option<WriteExpect<'a, D0>>, Z1598_2<'a, D1>, ), (PhantomData<str>, ), Z1598_3<'a, Z1598_5<'a, D1>>, ));
-shredh::zoo_case!(c1606, 1606, 'a, (Option<Read<'a, D2, PanicHandler>>, (Read<'a, D1, Hc<D2>>, ), ));
-#[derive(SystemData)] pub struct Z1614_1<'a, T0: Resource + ZRes>(Write<'a, T0, PanicHandler>, Read<'a, D0, Hc<D3>>);
-#[derive(SystemData)] pub struct Z1614_2<'a, T0>(pub Read<'a, T0, Hc<D0>>, pub Read<'a, D0, Hc<D3>>) where T0: Debug + Resource + for<'b> Hrtb<'b>;
-#[derive(SystemData)] pub struct Z1614_4<'a>(pub Read<'a, D0>, pub (), pub ());
-#[derive(SystemData)] pub struct Z1614_3<'a, T0>(Write<'a, D0, Hc<D3>>, Option<Write<'a, T0>>, (ReadExpect<'a, D3>, Write<'a, D0, PanicHandler>, WriteExpect<'a, D3>, Write<'a, D0, DefaultProvider>, ), Z1614_4<'a>) where T0: Resource;
-#[derive(SystemData)] pub struct Z1614_5<'a> { pub f0: Write<'a, D0, PanicHandler>, }
-#[derive(SystemData)] pub struct Z1614_7<'a, T0, T1> where T0: Debug + Resource + for<'b> Hrtb<'b> + Default, T1: Resource + Default { pub f0: Write<'a, D3, Hc<D0>>, pub f1: Read<'a, T0, DefaultProvider>, pub f2: Write<'a, T1>, pub f3: ReadExpect<'a, D0>, }
-#[derive(SystemData)] pub struct Z1614_8<'a, T0: Debug + Resource + for<'b> Hrtb<'b>, T1: Resource + ZRes, T2: Resource>(Read<'a, T0>, Write<'a, T1, PanicHandler>, Write<'a, T2, Hc<D0>>, Read<'a, D0, Hc<D3>>);
-#[derive(SystemData)] pub struct Z1614_9<'a>(pub Write<'a, D0, PanicHandler>);
-#[derive(SystemData)] pub struct Z1614_6<'a, U0: SystemData<'a>, U1: SystemData<'a>, U2>(pub Z1614_7<'a, D0, D3>, pub U0, pub U1, pub U2) where U2: SystemData<'a>;
-#[derive(SystemData)] pub struct Z1614_0<'a, U0: SystemData<'a>, U1: SystemData<'a>>(pub (Z1614_1<'a, D0>, Z1614_2<'a, D3>, ), pub U0, pub (Z1614_5<'a>, ), pub U1);
-shredh::zoo_case!(c1614, 1614, 'a, Z1614_0<'a, Z1614_3<'a, D3>, Z1614_6<'a, Read<'a, D0, DefaultProvider>, Z1614_8<'a, D0, D3, D3>, Z1614_9<'a>>>);
-#[derive(SystemData)] pub struct Z1622_2<'a> { f0: Option<Write<'a, D0, PanicHandler>>, f1: ReadExpect<'a, D2>, f2: Read<'a, D4, Hc<D0>>, f3: WriteExpect<'a, D4>, }
-#[derive(SystemData)] pub struct Z1622_1<'a>(pub Z1622_2<'a>);
-#[derive(SystemData)] pub struct Z1622_0<'a>(Z1622_1<'a>);
-shredh::zoo_case!(c1622, 1622, 'a, Z1622_0<'a>);
-#[derive(SystemData)] pub struct Z1630_0<'a, U0: SystemData<'a>, T0: Resource + ZRes + Default, T1: Resource + Default> { pub f0: U0, pub f1: PhantomData<fn() -> N2>, pub f2: Read<'a, T0>, pub f3: Write<'a, T1>, }
-#[derive(SystemData)] pub struct Z1630_1<'a> { pub f0: Option<ReadExpect<'a, D1>>, pub f1: Read<'a, D1, Hc<D2>>, pub f2: Option<Write<'a, D2, PanicHandler>>, }
-#[derive(SystemData)] pub struct Z1630_2<'a> { pub f0: (Option<Read<'a, D2>>, Read<'a, D1, DefaultProvider>, Option<Read<'a, D1, PanicHandler>>, ), }
-shredh::zoo_case!(c1630, 1630, 'a, (((Option<Write<'a, D1, PanicHandler>>, PhantomData<dyn Send>, Option<Read<'a, D2, PanicHandler>>, (), ), (Option<Read<'a, D2>>, Read<'a, D1, DefaultProvider>, (), (), ), Z1630_0<'a, Option<WriteExpect<'a, D2>>, D1, D2>, Z1630_1<'a>, ), Read<'a, D2>, Z1630_2<'a>, ));
-#[derive(SystemData)] pub struct Z1638_1<'a, U0: SystemData<'a>, U1: SystemData<'a>> { pub f0: Read<'a, D1, DefaultProvider>, pub f1: ((), ), pub f2: U0, pub f3: U1, }
-#[derive(SystemData)] pub struct Z1638_2<'a, U0: SystemData<'a>, T0: Resource + Default>(pub U0, pub Read<'a, T0>);
-#[derive(SystemData)] pub struct Z1638_3<'a, T0> where T0: Resource { f0: Read<'a, T0, PanicHandler>, f1: Option<Write<'a, D3>>, }
-#[derive(SystemData)] pub struct Z1638_4<'a>(Read<'a, D4, PanicHandler>, Write<'a, D0, Hc<D4>>, Write<'a, D1, PanicHandler>);
-#[derive(SystemData)] pub struct Z1638_5<'a, T0: Resource>(pub Write<'a, D4, Hc<D0>>, pub Option<Read<'a, T0>>, pub Option<WriteExpect<'a, D3>>);
-#[derive(SystemData)] pub struct Z1638_6<'a, U0: SystemData<'a>, U1, T0: Debug + Resource, T1: Resource + ZRes>(U0, U1, Option<Read<'a, T0>>, Read<'a, T1, DefaultProvider>) where U1: SystemData<'a>;
-#[derive(SystemData)] pub struct Z1638_0<'a, T0: Resource>(Z1638_1<'a, (Write<'a, D3, Hc<D4>>, ReadExpect<'a, D1>, WriteExpect<'a, D1>, WriteExpect<'a, D1>, ), Option<WriteExpect<'a, D1>>>, Option<WriteExpect<'a, T0>>, (Z1638_2<'a, Write<'a, D1>, D1>, Z1638_3<'a, D4>, ), (Z1638_4<'a>, Z1638_5<'a, D0>, Read<'a, D4>, Z1638_6<'a, Write<'a, D4, DefaultProvider>, Read<'a, D3>, D0, D0>, ));
-shredh::zoo_case!(c1638, 1638, 'a, Z1638_0<'a, D0>);
-#[derive(SystemData)] pub struct Z1646_0<'a>(Write<'a, D2>);
-#[derive(SystemData)] pub struct Z1646_2<'a, T0: Resource> { pub f0: Read<'a, T0, DefaultProvider>, }
-#[derive(SystemData)] pub struct Z1646_1<'a, 'x> { pub f0: PhantomData<&'x i64>, pub f1: Z1646_2<'a, D2>, pub f2: Option<Read<'a, D3>>, pub f3: PhantomData<dyn Send>, }
-shredh::zoo_case!(c1646, 1646, 'a, (Z1646_0<'a>, Z1646_1<'a, 'a>, Read<'a, D3>, ((Read<'a, D2, DefaultProvider>, ), (), ), ));
-#[derive(SystemData)] pub struct Z1654_2<'a, T0: Resource + ZRes>(pub PhantomData<dyn Send>, pub Read<'a, D1, Hc<D2>>, pub Read<'a, T0>, pub PhantomData<(Write<'a, D1>,)>);
-#[derive(SystemData)] pub struct Z1654_1<'a> { pub f0: Option<Read<'a, D3>>, pub f1: Z1654_2<'a, D3>, pub f2: Option<Read<'a, D3, PanicHandler>>, }
-#[derive(SystemData)] pub struct Z1654_3<'a, T0: Debug + Resource>(pub Read<'a, T0>);
-#[derive(SystemData)] pub struct Z1654_4<'a>(pub Write<'a, D2>);
-#[derive(SystemData)] pub struct Z1654_5<'a, T0: Debug + Resource>(Option<Write<'a, T0>>);
-#[derive(SystemData)] pub struct Z1654_6<'a, U0: SystemData<'a>>(U0, Read<'a, D1>);
-#[derive(SystemData)] pub struct Z1654_0<'a, U0: SystemData<'a>, U1: SystemData<'a>> { pub f0: Z1654_1<'a>, pub f1: U0, pub f2: U1, }
-shredh::zoo_case!(c1654, 1654, 'a, Z1654_0<'a, (Z1654_3<'a, D1>, Z1654_4<'a>, Z1654_5<'a, D3>, (ReadExpect<'a, D3>, Option<ReadExpect<'a, D3>>, (), ), ), ((Read<'a, D2, DefaultProvider>, Read<'a, D3, Hc<D1>>, Option<Read<'a, D3>>, Read<'a, D2, DefaultProvider>, ), Option<Read<'a, D1>>, Option<ReadExpect<'a, D3>>, Z1654_6<'a, PhantomData<D0>>, )>);
-#[derive(SystemData)] pub struct Z1662_0<'a>(pub Option<Read<'a, D3>>, pub Read<'a, D3, DefaultProvider>, pub Option<Read<'a, D3>>);
-shredh::zoo_case!(c1662, 1662, 'a, (Read<'a, D0, DefaultProvider>, (Read<'a, D0, DefaultProvider>, Option<ReadExpect<'a, D0>>, ), Z1662_0<'a>, ));
-#[derive(SystemData)] pub struct Z1670_1<'a> { f0: Write<'a, D0, DefaultProvider>, f1: Write<'a, D3, Hc<D4>>, f2: Write<'a, D3, Hc<D1>>, }
-#[derive(SystemData)] pub struct Z1670_2<'a, 'x, T0: Debug + Resource + for<'b> Hrtb<'b>, T1, T2>(PhantomData<&'x i64>, Option<Read<'a, T0>>, Read<'a, T1, DefaultProvider>, Read<'a, T2, Hc<D0>>) where T1: Resource + ZRes, T2: Resource;
-#[derive(SystemData)] pub struct Z1670_0<'a> { pub f0: Z1670_1<'a>, pub f1: Z1670_2<'a, 'a, D4, D4, D3>, }
-shredh::zoo_case!(c1670, 1670, 'a, (Z1670_0<'a>, ));
-#[derive(SystemData)] pub struct Z1678_1<'a, T0: Debug + Resource + for<'b> Hrtb<'b>> { pub f0: Option<Read<'a, N2, PanicHandler>>, pub f1: ReadExpect<'a, T0>, }
-#[derive(SystemData)] pub struct Z1678_2<'a> { pub f0: Option<WriteExpect<'a, N0>>, }
-#[derive(SystemData)] pub struct Z1678_0<'a> { pub f0: Z1678_1<'a, N0>, pub f1: Z1678_2<'a>, }
-shredh::zoo_case!(c1678, 1678, 'a, Z1678_0<'a>);
-#[derive(SystemData)] pub struct Z1686_2<'a, T0: Debug + Resource + for<'b> Hrtb<'b>, U0> where U0: SystemData<'a> { pub f0: Read<'a, T0, Hc<D1>>, pub f1: U0, }
-#[derive(SystemData)] pub struct Z1686_1<'a, U0: SystemData<'a>, U1: SystemData<'a>> { f0: (Read<'a, D1, Hc<D3>>, Read<'a, D0, Hc<D1>>, ), f1: (PhantomData<fn() -> N2>, Write<'a, D3>, Option<Read<'a, D3>>, ), f2: U0, f3: U1, }
-#[derive(SystemData)] pub struct Z1686_4<'a>(pub Write<'a, D0>);
-#[derive(SystemData)] pub struct Z1686_3<'a> { f0: Z1686_4<'a>, f1: Option<WriteExpect<'a, D3>>, }
-#[derive(SystemData)] pub struct Z1686_0<'a> { f0: (Option<Read<'a, D1, PanicHandler>>, Write<'a, D4>, ), f1: Z1686_1<'a, Z1686_2<'a, D4, Option<Read<'a, D1, PanicHandler>>>, ((), )>, f2: Option<Write<'a, D4, PanicHandler>>, f3: Z1686_3<'a>, }
-shredh::zoo_case!(c1686, 1686, 'a, Z1686_0<'a>);
-#[derive(SystemData)] pub struct Z1694_1<'a, U0> where U0: SystemData<'a> { pub f0: Option<WriteExpect<'a, D1>>, pub f1: Read<'a, D3, PanicHandler>, pub f2: U0, pub f3: WriteExpect<'a, D3>, }
-#[derive(SystemData)] pub struct Z1694_0<'a>((PhantomData<(Write<'a, D1>,)>, ), (Write<'a, D3, Hc<D1>>, Write<'a, D1, Hc<D3>>, ), Z1694_1<'a, Option<Write<'a, D3>>>, ());
-shredh::zoo_case!(c1694, 1694, 'a, Z1694_0<'a>);
-#[derive(SystemData)] pub struct Z1702_0<'a, T0, T1>(Option<ReadExpect<'a, D3>>, Option<Read<'a, T0, PanicHandler>>, Write<'a, T1, DefaultProvider>) where T0: Debug + Resource + for<'b> Hrtb<'b>, T1: Debug + Resource + for<'b> Hrtb<'b>;
-#[derive(SystemData)] pub struct Z1702_1<'a, U0: SystemData<'a>> { f0: Option<Write<'a, D3, PanicHandler>>, f1: Read<'a, D1>, f2: U0, f3: Option<Read<'a, D3, PanicHandler>>, }
-shredh::zoo_case!(c1702, 1702, 'a, (PhantomData<str>, Z1702_0<'a, D3, D1>, (Z1702_1<'a, Write<'a, D3>>, ((), ), ), ));
-#[derive(SystemData)] pub struct Z1710_2<'a, T0: Resource> { f0: WriteExpect<'a, N2>, f1: Write<'a, T0>, }
-#[derive(SystemData)] pub struct Z1710_1<'a, 'x> { f0: Z1710_2<'a, D3>, f1: PhantomData<&'x i64>, f2: (Option<Read<'a, N0, PanicHandler>>, Option<WriteExpect<'a, N0>>, Read<'a, D3>, Option<Write<'a, N4, PanicHandler>>, ), }
-#[derive(SystemData)] pub struct Z1710_0<'a> { f0: (), f1: PhantomData<dyn Send>, f2: Z1710_1<'a, 'static>, }
-shredh::zoo_case!(c1710, 1710, 'a, Z1710_0<'a>);
-#[derive(SystemData)] pub struct Z1718_1<'a, T0, T1> where T0: Resource, T1: Resource { f0: Read<'a, T0, Hc<D2>>, f1: WriteExpect<'a, T1>, }
-#[derive(SystemData)] pub struct Z1718_0<'a, U0, U1, U2: SystemData<'a>>(pub U0, pub Option<WriteExpect<'a, N1>>, pub U1, pub U2) where U0: SystemData<'a>, U1: SystemData<'a>;
-shredh::zoo_case!(c1718, 1718, 'a, Z1718_0<'a, Z1718_1<'a, D3, D3>, (Read<'a, D2, DefaultProvider>, Read<'a, D3, Hc<D2>>, (), Write<'a, D3, Hc<D2>>, ), Read<'a, D3, Hc<D2>>>);
-#[derive(SystemData)] pub struct Z1726_0<'a>(pub (PhantomData<str>, PhantomData<(Write<'a, D1>,)>, Option<Read<'a, D2, PanicHandler>>, Read<'a, D2>, ));
-#[derive(SystemData)] pub struct Z1726_2<'a, U0: SystemData<'a>, T0: Resource, T1: Resource + ZRes, T2: Debug + Resource> { pub f0: U0, pub f1: Read<'a, T0, Hc<D2>>, pub f2: Option<WriteExpect<'a, T1>>, pub f3: Read<'a, T2, Hc<D1>>, }
-#[derive(SystemData)] pub struct Z1726_1<'a>(Z1726_2<'a, WriteExpect<'a, D0>, D4, D4, D2>, (Read<'a, D1, DefaultProvider>, Write<'a, D1, Hc<D0>>, Read<'a, D0, PanicHandler>, ));
-#[derive(SystemData)] pub struct Z1726_3<'a, T0: Resource>((), WriteExpect<'a, T0>);
-shredh::zoo_case!(c1726, 1726, 'a, ((WriteExpect<'a, D4>, ), Z1726_0<'a>, Z1726_1<'a>, (Read<'a, D0>, Z1726_3<'a, D1>, ), ));
-#[derive(SystemData)] pub struct Z1734_1<'a> { pub f0: Write<'a, D3, Hc<D1>>, pub f1: (), }
-#[derive(SystemData)] pub struct Z1734_0<'a> { pub f0: Option<WriteExpect<'a, D2>>, pub f1: ((), ), pub f2: Z1734_1<'a>, pub f3: (), }
-shredh::zoo_case!(c1734, 1734, 'a, Z1734_0<'a>);
-#[derive(SystemData)] pub struct Z1742_0<'a> { f0: PhantomData<&'a u8>, }
-shredh::zoo_case!(c1742, 1742, 'a, (Z1742_0<'a>, ));
-shredh::zoo_case!(c1750, 1750, 'a, (((), ), ));
-#[derive(SystemData)] pub struct Z1758_2<'a>(pub Read<'a, D1>, pub Write<'a, D1, DefaultProvider>, pub Write<'a, D3, PanicHandler>, pub Read<'a, D1>);
-#[derive(SystemData)] pub struct Z1758_1<'a>(Z1758_2<'a>, (PhantomData<str>, ReadExpect<'a, D1>, ReadExpect<'a, D4>, Write<'a, D3, PanicHandler>, ), Write<'a, D3, DefaultProvider>);
-#[derive(SystemData)] pub struct Z1758_0<'a> { f0: ((Read<'a, D0, PanicHandler>, Read<'a, D4, Hc<D0>>, ), ), f1: Z1758_1<'a>, }
-shredh::zoo_case!(c1758, 1758, 'a, Z1758_0<'a>);
-#[derive(SystemData)] pub struct Z1766_0<'a, T0: Debug + Resource>((Option<Read<'a, N2>>, Read<'a, D0>, Write<'a, D1>, ), Read<'a, T0, Hc<D0>>, (), Read<'a, D0>);
-shredh::zoo_case!(c1766, 1766, 'a, Z1766_0<'a, D1>);
-#[derive(SystemData)] pub struct Z1774_1<'a>(Write<'a, D2, DefaultProvider>);
-#[derive(SystemData)] pub struct Z1774_0<'a, T0: Debug + Resource, T1: Resource> { pub f0: Read<'a, T0, Hc<D2>>, pub f1: Z1774_1<'a>, pub f2: Write<'a, T1, PanicHandler>, pub f3: (PhantomData<[u32]>, PhantomData<fn() -> N2>, Write<'a, D3, DefaultProvider>, ReadExpect<'a, D3>, ), }
-shredh::zoo_case!(c1774, 1774, 'a, Z1774_0<'a, D3, D2>);
-#[derive(SystemData)] pub struct Z1782_1<'a>(pub PhantomData<u8>, pub Write<'a, D1, DefaultProvider>);
-#[derive(SystemData)] pub struct Z1782_0<'a, U0: SystemData<'a>> { f0: PhantomData<str>, f1: U0, f2: Z1782_1<'a>, }
-shredh::zoo_case!(c1782, 1782, 'a, Z1782_0<'a, ((), )>);
-#[derive(SystemData)] pub struct Z1790_1<'a, U0> where U0: SystemData<'a> { pub f0: (Read<'a, D1, Hc<D0>>, ), pub f1: (Option<Write<'a, D0>>, ), pub f2: U0, }
-#[derive(SystemData)] pub struct Z1790_3<'a> { pub f0: WriteExpect<'a, D0>, pub f1: Read<'a, D1, Hc<D0>>, pub f2: Read<'a, D3, Hc<D0>>, }
-#[derive(SystemData)] pub struct Z1790_4<'a, U0>((), (), Option<Write<'a, D1, PanicHandler>>, U0) where U0: SystemData<'a>;
-#[derive(SystemData)] pub struct Z1790_2<'a> { pub f0: Z1790_3<'a>, pub f1: (Option<Write<'a, D0>>, Option<Write<'a, D1, PanicHandler>>, Read<'a, D1>, (), ), pub f2: Z1790_4<'a, Option<Read<'a, D3>>>, }
-#[derive(SystemData)] pub struct Z1790_0<'a> { f0: Z1790_1<'a, (WriteExpect<'a, D3>, )>, f1: Z1790_2<'a>, }
-shredh::zoo_case!(c1790, 1790, 'a, Z1790_0<'a>);
-#[derive(SystemData)] pub struct Z1798_1<'a> { pub f0: (Option<ReadExpect<'a, D1>>, ), pub f1: ((), ), }
-#[derive(SystemData)] pub struct Z1798_3<'a> { f0: Read<'a, D0>, f1: Write<'a, D1>, f2: WriteExpect<'a, D0>, f3: PhantomData<str>, }
-#[derive(SystemData)] pub struct Z1798_4<'a, T0: Debug + Resource, T1: Debug + Resource>(Read<'a, T0, PanicHandler>, Write<'a, T1, Hc<D0>>, Write<'a, D1, Hc<D0>>);
-#[derive(SystemData)] pub struct Z1798_2<'a, T0, T1>(Z1798_3<'a>, Z1798_4<'a, D1, D1>, ReadExpect<'a, T0>, Write<'a, T1>) where T0: Resource + ZRes, T1: Debug + Resource + for<'b> Hrtb<'b>;
-#[derive(SystemData)] pub struct Z1798_6<'a>(pub Write<'a, D1, Hc<D0>>, pub (), pub Option<Write<'a, D1, PanicHandler>>, pub Read<'a, D1, Hc<D0>>);
-#[derive(SystemData)] pub struct Z1798_5<'a> { f0: Z1798_6<'a>, }
-#[derive(SystemData)] pub struct Z1798_7<'a, T0: Resource + ZRes, T1: Debug + Resource>(pub Option<WriteExpect<'a, T0>>, pub Write<'a, T1, Hc<D0>>);
-#[derive(SystemData)] pub struct Z1798_0<'a, U0, U1> where U0: SystemData<'a>, U1: SystemData<'a> { f0: Z1798_1<'a>, f1: Z1798_2<'a, D1, D1>, f2: U0, f3: U1, }
-shredh::zoo_case!(c1798, 1798, 'a, Z1798_0<'a, Z1798_5<'a>, (Z1798_7<'a, D0, D1>, )>);
-#[derive(SystemData)] pub struct Z1806_2<'a>(pub Read<'a, D3>);
-#[derive(SystemData)] pub struct Z1806_1<'a> { pub f0: Z1806_2<'a>, pub f1: ((), ), pub f2: Option<ReadExpect<'a, D3>>, pub f3: ((), ), }
-#[derive(SystemData)] pub struct Z1806_0<'a>(Z1806_1<'a>);
-shredh::zoo_case!(c1806, 1806, 'a, Z1806_0<'a>);
-#[derive(SystemData)] pub struct Z1814_1<'a, T0, T1>(pub Read<'a, T0, Hc<D1>>, pub Option<Read<'a, D0, PanicHandler>>, pub Option<Read<'a, T1, PanicHandler>>, pub Option<Write<'a, D1, PanicHandler>>) where T0: Resource + ZRes, T1: Debug + Resource + for<'b> Hrtb<'b>;
-#[derive(SystemData)] pub struct Z1814_2<'a, U0: SystemData<'a>> { pub f0: Write<'a, D1, PanicHandler>, pub f1: U0, pub f2: (), }
-#[derive(SystemData)] pub struct Z1814_0<'a, T0: Debug + Resource + for<'b> Hrtb<'b>> { pub f0: Z1814_1<'a, D2, D1>, pub f1: Z1814_2<'a, Read<'a, D1, Hc<D2>>>, pub f2: (WriteExpect<'a, D2>, Option<Read<'a, D4>>, Option<Read<'a, D0, PanicHandler>>, Option<Read<'a, D1>>, ), pub f3: Option<ReadExpect<'a, T0>>, }
-#[derive(SystemData)] pub struct Z1814_4<'a>(pub Option<ReadExpect<'a, D0>>, pub ());
-#[derive(SystemData)] pub struct Z1814_5<'a, T0>(Option<ReadExpect<'a, D0>>, Read<'a, T0>) where T0: Debug + Resource + Default;
-#[derive(SystemData)] pub struct Z1814_6<'a> { f0: (), f1: PhantomData<&'a u8>, }
-#[derive(SystemData)] pub struct Z1814_3<'a, T0: Debug + Resource> { f0: Z1814_4<'a>, f1: Z1814_5<'a, D4>, f2: Z1814_6<'a>, f3: Write<'a, T0, Hc<D4>>, }
-shredh::zoo_case!(c1814, 1814, 'a, (Read<'a, D4, Hc<D1>>, Z1814_0<'a, D2>, (Option<Read<'a, D0, PanicHandler>>, ), Z1814_3<'a, D0>, ));
-shredh::zoo_case!(c1822, 1822, 'a, ((Option<Write<'a, D1, PanicHandler>>, Read<'a, D2, Hc<D1>>, (), ), ReadExpect<'a, D1>, ));
-#[derive(SystemData)] pub struct Z1830_0<'a> { f0: (Option<Read<'a, D3>>, Read<'a, D1>, Write<'a, D3, Hc<D4>>, ), }
-shredh::zoo_case!(c1830, 1830, 'a, (Read<'a, D4, PanicHandler>, ((), ), Option<Read<'a, D4>>, Z1830_0<'a>, ));
-#[derive(SystemData)] pub struct Z1838_2<'a, T0: Debug + Resource, T1: Debug + Resource> { f0: Read<'a, D0, Hc<D2>>, f1: PhantomData<u8>, f2: Read<'a, T0, PanicHandler>, f3: Read<'a, T1>, }
-#[derive(SystemData)] pub struct Z1838_3<'a, T0: Debug + Resource, T1: Resource + Default> { pub f0: PhantomData<str>, pub f1: Write<'a, T0, DefaultProvider>, pub f2: PhantomData<dyn Send>, pub f3: Read<'a, T1, DefaultProvider>, }
-#[derive(SystemData)] pub struct Z1838_1<'a, T0: Debug + Resource + for<'b> Hrtb<'b>> { pub f0: (Option<Read<'a, D2, PanicHandler>>, Option<Read<'a, D2>>, Read<'a, D2, DefaultProvider>, Read<'a, D0, DefaultProvider>, ), pub f1: Z1838_2<'a, D0, D0>, pub f2: Option<Read<'a, T0>>, pub f3: Z1838_3<'a, D2, D0>, }
-#[derive(SystemData)] pub struct Z1838_4<'a> { pub f0: Write<'a, D0, DefaultProvider>, pub f1: (Read<'a, D2>, Option<Read<'a, D0, PanicHandler>>, ), }
-#[derive(SystemData)] pub struct Z1838_5<'a, U0>(Option<ReadExpect<'a, D2>>, U0, Write<'a, D2>) where U0: SystemData<'a>;
-#[derive(SystemData)] pub struct Z1838_6<'a> { f0: Option<Read<'a, D0, PanicHandler>>, f1: ReadExpect<'a, D0>, }
-#[derive(SystemData)] pub struct Z1838_0<'a>(Z1838_1<'a, D2>, Z1838_4<'a>, (Z1838_5<'a, Option<ReadExpect<'a, D2>>>, Z1838_6<'a>, Write<'a, D2>, ), ((Read<'a, D2, PanicHandler>, Read<'a, D2, Hc<D0>>, ), (), ));
-shredh::zoo_case!(c1838, 1838, 'a, Z1838_0<'a>);
-#[derive(SystemData)] pub struct Z1846_0<'a, U0: SystemData<'a>, U1: SystemData<'a>>(U0, Read<'a, D3, PanicHandler>, U1, Option<Write<'a, D1>>);
-#[derive(SystemData)] pub struct Z1846_1<'a> { f0: (), f1: Option<Read<'a, D3>>, }
-shredh::zoo_case!(c1846, 1846, 'a, ((Read<'a, D3, DefaultProvider>, Option<Read<'a, D1, PanicHandler>>, Option<Read<'a, D1, PanicHandler>>, ), Z1846_0<'a, Read<'a, D1, Hc<D3>>, Read<'a, D1, DefaultProvider>>, Z1846_1<'a>, ));
-#[derive(SystemData)] pub struct Z1854_2<'a, T0> where T0: Resource { f0: Option<WriteExpect<'a, D0>>, f1: Option<Read<'a, D0, PanicHandler>>, f2: Option<Write<'a, T0>>, f3: Option<Read<'a, N3>>, }
-#[derive(SystemData)] pub struct Z1854_1<'a, T0: Debug + Resource, U0> where U0: SystemData<'a> { pub f0: Read<'a, T0>, pub f1: U0, }
-#[derive(SystemData)] pub struct Z1854_0<'a> { pub f0: Z1854_1<'a, D0, Z1854_2<'a, D0>>, }
-shredh::zoo_case!(c1854, 1854, 'a, Z1854_0<'a>);
-#[derive(SystemData)] pub struct Z1862_1<'a> { pub f0: Option<Read<'a, D0, PanicHandler>>, pub f1: (), }
-#[derive(SystemData)] pub struct Z1862_0<'a>(pub Z1862_1<'a>);
-#[derive(SystemData)] pub struct Z1862_2<'a, T0: Debug + Resource + for<'b> Hrtb<'b>, U0> where U0: SystemData<'a> { f0: Option<Write<'a, T0, PanicHandler>>, f1: Option<WriteExpect<'a, D0>>, f2: Read<'a, D0>, f3: U0, }
-#[derive(SystemData)] pub struct Z1862_3<'a, T0: Debug + Resource>(pub Read<'a, D2, DefaultProvider>, pub Read<'a, T0, Hc<D2>>);
-shredh::zoo_case!(c1862, 1862, 'a, (Z1862_0<'a>, Option<Read<'a, D0>>, ((), (Read<'a, D2>, ), Z1862_2<'a, D0, Write<'a, D0>>, Z1862_3<'a, D0>, ), ));
-#[derive(SystemData)] pub struct Z1870_0<'a, T0: Debug + Resource + Default>((ReadExpect<'a, D0>, Read<'a, D0, Hc<D3>>, Read<'a, D3, Hc<D0>>, Read<'a, D0, PanicHandler>, ), Write<'a, T0>);
-shredh::zoo_case!(c1870, 1870, 'a, Z1870_0<'a, D2>);
-shredh::zoo_case!(c1878, 1878, 'a, (Read<'a, D3, DefaultProvider>, Read<'a, D0>, Write<'a, D1, PanicHandler>, (), (), Option<WriteExpect<'a, N2>>, ));
-#[derive(SystemData)] pub struct Z1886_0<'a, 'x> { pub f0: Read<'a, D1, PanicHandler>, pub f1: PhantomData<&'x i64>, pub f2: Read<'a, D3, DefaultProvider>, pub f3: PhantomData<(Write<'a, D1>,)>, pub f4: Write<'a, D4, Hc<D1>>, }
-shredh::zoo_case!(c1886, 1886, 'a, Z1886_0<'a, 'a>);
-#[derive(SystemData)] pub struct Z1894_0<'a, 'x, T0, T1, T2>(pub Write<'a, D22, Hc<D19>>, pub Write<'a, D11>, pub Write<'a, T0>, pub Write<'a, T1>, pub Option<WriteExpect<'a, T2>>, pub Write<'a, D17, DefaultProvider>, pub Read<'a, D23>, pub Option<ReadExpect<'a, D10>>, pub Option<Write<'a, N15, PanicHandler>>, pub Read<'a, D21, Hc<D17>>, pub Write<'a, D8>, pub PhantomData<&'x i64>, pub Read<'a, D0>, pub Option<Read<'a, D9>>, pub ()) where T0: Debug + Resource + Default, T1: Resource + ZRes + Default, T2: Debug + Resource + for<'b> Hrtb<'b>;
-shredh::zoo_case!(c1894, 1894, 'a, Z1894_0<'a, 'static, D19, D5, N16>);
-#[derive(SystemData)] pub struct Z1902_0<'a>(Option<ReadExpect<'a, N3>>, PhantomData<str>, Read<'a, D4>, ReadExpect<'a, N3>, (), (), Read<'a, D0, DefaultProvider>, Option<ReadExpect<'a, N2>>, (), Read<'a, D4, PanicHandler>, Read<'a, N2, PanicHandler>, Read<'a, D1, DefaultProvider>, Read<'a, D4, PanicHandler>, Option<ReadExpect<'a, D0>>, (), Option<Read<'a, D1>>, (), Option<Read<'a, D0, PanicHandler>>, Option<ReadExpect<'a, D1>>, PhantomData<D0>, Read<'a, D0, DefaultProvider>, Option<ReadExpect<'a, D0>>, Option<Read<'a, N3>>, Option<Read<'a, D4, PanicHandler>>);
-shredh::zoo_case!(c1902, 1902, 'a, Z1902_0<'a>);
-#[derive(SystemData)] pub struct Z1910_0<'a, T0: Debug + Resource, T1: Debug + Resource, T2: Resource> { f0: Read<'a, T0, DefaultProvider>, f1: PhantomData<(Write<'a, D1>,)>, f2: Read<'a, T1, Hc<D5>>, f3: (), f4: Read<'a, T2, PanicHandler>, f5: Option<ReadExpect<'a, D5>>, f6: Write<'a, D6, DefaultProvider>, }
-shredh::zoo_case!(c1910, 1910, 'a, Z1910_0<'a, D0, D2, D4>);
-#[derive(SystemData)] pub struct Z1918_1<'a>(Write<'a, D4>);
-#[derive(SystemData)] pub struct Z1918_0<'a, U0: SystemData<'a>, U1: SystemData<'a>, U2: SystemData<'a>>(pub (), pub U0, pub U1, pub Write<'a, D1, Hc<D0>>, pub Read<'a, D0>, pub U2, pub (Write<'a, D0, Hc<D2>>, ), pub ((), Read<'a, D2, PanicHandler>, (), ));
-shredh::zoo_case!(c1918, 1918, 'a, Z1918_0<'a, Z1918_1<'a>, Write<'a, D1>, (Option<Read<'a, D0, PanicHandler>>, )>);
-#[derive(SystemData)] pub struct Z1926_0<'a, U0, U1: SystemData<'a>, U2: SystemData<'a>, T0: Debug + Resource + for<'b> Hrtb<'b>, T1: Resource, T2: Debug + Resource + for<'b> Hrtb<'b> + Default> where U0: SystemData<'a> { pub f0: U0, pub f1: U1, pub f2: U2, pub f3: Write<'a, T0, Hc<D3>>, pub f4: Option<Write<'a, T1>>, pub f5: PhantomData<str>, pub f6: PhantomData<T0>, pub f7: Read<'a, T2, DefaultProvider>, }
-shredh::zoo_case!(c1926, 1926, 'a, Z1926_0<'a, Option<WriteExpect<'a, N4>>, (), Read<'a, D3, Hc<D0>>, D0, D0, D2>);
-#[derive(SystemData)] pub struct Z1934_0<'a, U0, U1, U2> where U0: SystemData<'a>, U1: SystemData<'a>, U2: SystemData<'a> { pub f0: Read<'a, N23, PanicHandler>, pub f1: Write<'a, D3>, pub f2: Option<ReadExpect<'a, N21>>, pub f3: U0, pub f4: U1, pub f5: Option<Write<'a, N1, PanicHandler>>, pub f6: Option<Write<'a, N7, PanicHandler>>, pub f7: U2, pub f8: Read<'a, D10, PanicHandler>, }
-shredh::zoo_case!(c1934, 1934, 'a, Z1934_0<'a, Read<'a, D2>, PhantomData<&'a u8>, ()>);
-shredh::zoo_case!(c1942, 1942, 'a, (PhantomData<&'a u8>, Read<'a, D3, PanicHandler>, (), ReadExpect<'a, D2>, ReadExpect<'a, D3>, Read<'a, D3, DefaultProvider>, PhantomData<dyn Send>, PhantomData<str>, Read<'a, D2, DefaultProvider>, Option<ReadExpect<'a, D2>>, Read<'a, D3, PanicHandler>, Option<Read<'a, D2>>, ReadExpect<'a, D2>, ReadExpect<'a, D3>, ReadExpect<'a, D3>, PhantomData<fn() -> N2>, ReadExpect<'a, D3>, Option<Read<'a, D3, PanicHandler>>, (), PhantomData<u8>, ReadExpect<'a, D3>, ReadExpect<'a, D3>, Option<ReadExpect<'a, D2>>, (), ));
-#[derive(SystemData)] pub struct Z1950_0<'a, T0: Resource + ZRes + Default, U0: SystemData<'a>, U1, U2, T1: Resource + ZRes, T2: Resource>(Write<'a, T0, DefaultProvider>, U0, U1, U2, Write<'a, T1, Hc<D0>>, Read<'a, T2, DefaultProvider>, WriteExpect<'a, D1>, Read<'a, D2, Hc<D0>>, (), Option<Read<'a, D1>>, (), Option<Read<'a, D0, PanicHandler>>, (), Write<'a, D2, PanicHandler>, Read<'a, D2, DefaultProvider>, Read<'a, D1, PanicHandler>) where U1: SystemData<'a>, U2: SystemData<'a>;
-shredh::zoo_case!(c1950, 1950, 'a, Z1950_0<'a, D0, (), Write<'a, D2, DefaultProvider>, Read<'a, D0, DefaultProvider>, D2, D2>);
-#[derive(SystemData)] pub struct Z1958_0<'a>(pub (), pub Read<'a, D1, PanicHandler>);
-#[derive(SystemData)] pub struct Z1958_1<'a>(ReadExpect<'a, D2>, PhantomData<&'a u8>);
-#[derive(SystemData)] pub struct Z1958_2<'a, T0: Debug + Resource + for<'b> Hrtb<'b> + Default> { pub f0: Read<'a, T0>, pub f1: PhantomData<D0>, pub f2: Read<'a, D5, PanicHandler>, }
-shredh::zoo_case!(c1958, 1958, 'a, (Read<'a, D0, Hc<D1>>, Option<Read<'a, D1>>, Read<'a, D3, PanicHandler>, Read<'a, D5, DefaultProvider>, Z1958_0<'a>, Write<'a, D2, Hc<D4>>, Write<'a, D2, PanicHandler>, Option<Write<'a, D2>>, Write<'a, D4, PanicHandler>, (Option<Read<'a, D1>>, ), Z1958_1<'a>, Read<'a, D3, DefaultProvider>, Z1958_2<'a, D0>, Write<'a, D5, DefaultProvider>, ));
-shredh::zoo_case!(c1966, 1966, 'a, (Read<'a, D2, Hc<D3>>, Write<'a, D3, DefaultProvider>, (), Write<'a, D4, Hc<D3>>, Read<'a, D4, Hc<D3>>, (), ReadExpect<'a, D2>, ReadExpect<'a, D0>, Read<'a, D0, DefaultProvider>, PhantomData<dyn Send>, ReadExpect<'a, D3>, Read<'a, D3, Hc<D4>>, PhantomData<fn() -> N2>, Read<'a, D0, DefaultProvider>, Write<'a, D3, PanicHandler>, WriteExpect<'a, D0>, Write<'a, D4, PanicHandler>, Option<ReadExpect<'a, D0>>, Option<ReadExpect<'a, D0>>, ));
-#[derive(SystemData)] pub struct Z1974_0<'a, U0: SystemData<'a>, U1: SystemData<'a>, U2: SystemData<'a>>(U0, U1, U2, Read<'a, D4, DefaultProvider>);
-shredh::zoo_case!(c1974, 1974, 'a, Z1974_0<'a, Option<WriteExpect<'a, N6>>, Option<Write<'a, N6>>, Write<'a, D0, Hc<D2>>>);
-shredh::zoo_case!(c1982, 1982, 'a, (Read<'a, N3, PanicHandler>, Option<WriteExpect<'a, D11>>, ReadExpect<'a, N9>, PhantomData<&'a u8>, Write<'a, N19, PanicHandler>, Read<'a, D1, DefaultProvider>, ReadExpect<'a, D22>, Read<'a, N23, PanicHandler>, Read<'a, D18, PanicHandler>, Write<'a, D12, Hc<D2>>, Read<'a, D2, Hc<D11>>, Read<'a, D7, DefaultProvider>, Option<Write<'a, N17, PanicHandler>>, ));
-shredh::zoo_case!(c1990, 1990, 'a, (Option<Write<'a, D3>>, Read<'a, D5, Hc<D4>>, Write<'a, D5, Hc<D6>>, (), Read<'a, D3, Hc<D0>>, ));
-#[derive(SystemData)] pub struct Z1998_0<'a, 'x, T0, T1: Debug + Resource, T2> where T0: Debug + Resource, T2: Resource + ZRes { f0: PhantomData<&'x i64>, f1: Option<Read<'a, T0>>, f2: PhantomData<[u32]>, f3: Option<Read<'a, D2, PanicHandler>>, f4: PhantomData<[u32]>, f5: (), f6: (), f7: Option<Read<'a, T1, PanicHandler>>, f8: Option<ReadExpect<'a, T2>>, f9: Option<ReadExpect<'a, D3>>, f10: Read<'a, D2>, f11: ReadExpect<'a, D2>, f12: Read<'a, D3, PanicHandler>, f13: (), f14: Read<'a, D3>, f15: Option<Read<'a, D3, PanicHandler>>, f16: Read<'a, D2, PanicHandler>, f17: Option<Read<'a, D2>>, f18: PhantomData<dyn Send>, f19: Read<'a, D3>, f20: (), }
-shredh::zoo_case!(c1998, 1998, 'a, Z1998_0<'a, 'static, D3, D3, D3>);
-#[derive(SystemData)] pub struct Z2006_1<'a>(Read<'a, D1, PanicHandler>);
-#[derive(SystemData)] pub struct Z2006_2<'a, U0, U1> where U0: SystemData<'a>, U1: SystemData<'a> { f0: U0, f1: U1, f2: PhantomData<(Write<'a, D1>,)>, }
-#[derive(SystemData)] pub struct Z2006_3<'a, T0: Resource + ZRes> { pub f0: Read<'a, T0, DefaultProvider>, }
-#[derive(SystemData)] pub struct Z2006_4<'a>(Read<'a, D3, PanicHandler>, PhantomData<&'a u8>);
-#[derive(SystemData)] pub struct Z2006_0<'a, 'x> { pub f0: Option<WriteExpect<'a, D0>>, pub f1: Write<'a, D0, Hc<D3>>, pub f2: Write<'a, D0>, pub f3: Z2006_1<'a>, pub f4: Z2006_2<'a, Option<Read<'a, D1>>, Write<'a, D1>>, pub f5: WriteExpect<'a, D3>, pub f6: Z2006_3<'a, D3>, pub f7: PhantomData<&'x i64>, pub f8: Write<'a, D1>, pub f9: Read<'a, D0>, pub f10: Option<ReadExpect<'a, D3>>, pub f11: WriteExpect<'a, D1>, pub f12: Read<'a, D0, Hc<D3>>, pub f13: Z2006_4<'a>, pub f14: PhantomData<[u32]>, }
-shredh::zoo_case!(c2006, 2006, 'a, Z2006_0<'a, 'static>);
-#[derive(SystemData)] pub struct Z2014_0<'a> { pub f0: Read<'a, D3, Hc<D4>>, }
-#[derive(SystemData)] pub struct Z2014_1<'a, U0, T0: Debug + Resource + for<'b> Hrtb<'b>> where U0: SystemData<'a> { f0: U0, f1: (), f2: Write<'a, T0, DefaultProvider>, }
-shredh::zoo_case!(c2014, 2014, 'a, (Option<Write<'a, D1, PanicHandler>>, Write<'a, D4, Hc<D3>>, Write<'a, D3>, Read<'a, D2, Hc<D1>>, ReadExpect<'a, D1>, Write<'a, D3, Hc<D4>>, ((), Option<Write<'a, D2>>, Write<'a, D1, Hc<D4>>, ), Write<'a, D2, Hc<D3>>, Write<'a, D2>, ((), Read<'a, D2, DefaultProvider>, PhantomData<[u32]>, ), Z2014_0<'a>, Read<'a, D3, Hc<D2>>, (Write<'a, D2, DefaultProvider>, ), PhantomData<[u32]>, (), (WriteExpect<'a, D2>, Option<ReadExpect<'a, D4>>, Write<'a, D2, Hc<D3>>, ), Option<Write<'a, D4>>, Read<'a, D4, Hc<D3>>, Read<'a, D1, Hc<D4>>, PhantomData<D0>, (Option<ReadExpect<'a, D2>>, ), Read<'a, D3, PanicHandler>, Read<'a, D3, DefaultProvider>, PhantomData<str>, Z2014_1<'a, Read<'a, D2, DefaultProvider>, D4>, ));
-#[derive(SystemData)] pub struct Z2022_0<'a, T0: Resource + ZRes, T1: Debug + Resource, T2: Resource>(Write<'a, T0>, Write<'a, T1, PanicHandler>, WriteExpect<'a, T2>, Read<'a, D0, PanicHandler>, PhantomData<T0>, Read<'a, N4, PanicHandler>, Write<'a, N3, PanicHandler>);
-shredh::zoo_case!(c2022, 2022, 'a, Z2022_0<'a, D7, D5, N6>);
-#[derive(SystemData)] pub struct Z2030_0<'a, U0: SystemData<'a>, U1: SystemData<'a>, T0: Resource, T1: Debug + Resource + for<'b> Hrtb<'b> + Default, U2, T2: Debug + Resource + Default> where U2: SystemData<'a> { pub f0: U0, pub f1: U1, pub f2: (), pub f3: Read<'a, T0, Hc<D2>>, pub f4: Read<'a, T1, DefaultProvider>, pub f5: Write<'a, D0, PanicHandler>, pub f6: U2, pub f7: Write<'a, T2, DefaultProvider>, pub f8: PhantomData<D0>, pub f9: Read<'a, D0, Hc<D4>>, pub f10: Write<'a, D5, Hc<D0>>, pub f11: ReadExpect<'a, D2>, pub f12: Write<'a, D1, DefaultProvider>, pub f13: ReadExpect<'a, D1>, pub f14: Option<Read<'a, D0, PanicHandler>>, pub f15: Option<Read<'a, D1>>, }
-shredh::zoo_case!(c2030, 2030, 'a, Z2030_0<'a, PhantomData<dyn Send>, Option<ReadExpect<'a, D4>>, D0, D0, WriteExpect<'a, D2>, D4>);
-#[derive(SystemData)] pub struct Z2038_0<'a> { f0: WriteExpect<'a, D2>, f1: PhantomData<D0>, f2: Write<'a, D1>, f3: Read<'a, D0, DefaultProvider>, f4: (), f5: Write<'a, D2, PanicHandler>, f6: Option<Write<'a, D0>>, f7: Read<'a, D2, Hc<D1>>, f8: Write<'a, D2, DefaultProvider>, f9: Write<'a, D0>, f10: WriteExpect<'a, D1>, f11: Option<Read<'a, D1>>, f12: Option<Read<'a, D1>>, f13: Read<'a, D1, DefaultProvider>, f14: PhantomData<dyn Send>, f15: Write<'a, D0>, }
-shredh::zoo_case!(c2038, 2038, 'a, Z2038_0<'a>);
-#[derive(SystemData)] pub struct Z2046_0<'a, U0: SystemData<'a>, U1: SystemData<'a>, U2: SystemData<'a>> { f0: U0, f1: WriteExpect<'a, D3>, f2: Write<'a, D0, Hc<D2>>, f3: U1, f4: Read<'a, D3>, f5: Write<'a, D3, PanicHandler>, f6: U2, f7: (), f8: WriteExpect<'a, D0>, f9: Option<Write<'a, D2, PanicHandler>>, f10: ReadExpect<'a, D2>, f11: (), f12: Read<'a, D3>, f13: Read<'a, D0, Hc<D3>>, f14: PhantomData<(Write<'a, D1>,)>, f15: Option<Read<'a, D3>>, f16: ReadExpect<'a, D3>, f17: Write<'a, D2, PanicHandler>, f18: Read<'a, D3>, f19: PhantomData<(Write<'a, D1>,)>, f20: Write<'a, D0, Hc<D3>>, f21: ReadExpect<'a, D3>, f22: Option<WriteExpect<'a, D3>>, f23: Option<Read<'a, D3>>, }
-shredh::zoo_case!(c2046, 2046, 'a, Z2046_0<'a, Read<'a, D3>, Option<Read<'a, D2>>, Option<Write<'a, D2>>>);
-#[derive(SystemData)] pub struct Z2054_0<'a, T0, T1, T2> where T0: Resource, T1: Resource, T2: Debug + Resource { f0: PhantomData<str>, f1: Option<Read<'a, T0>>, f2: PhantomData<D0>, f3: Read<'a, D0>, f4: Option<Read<'a, T1, PanicHandler>>, f5: Option<Read<'a, D2, PanicHandler>>, f6: Option<Read<'a, D3>>, f7: Read<'a, T2>, f8: Read<'a, D0>, f9: Read<'a, D3, DefaultProvider>, f10: PhantomData<T0>, f11: Read<'a, D0, PanicHandler>, f12: ReadExpect<'a, D3>, f13: Read<'a, D2, DefaultProvider>, f14: (), f15: Option<ReadExpect<'a, N4>>, f16: (), f17: ReadExpect<'a, D3>, f18: Read<'a, D3, DefaultProvider>, f19: Option<Read<'a, N4, PanicHandler>>, }
-shredh::zoo_case!(c2054, 2054, 'a, Z2054_0<'a, N4, N4, D0>);
-#[derive(SystemData)] pub struct Z2062_0<'a, U0, U1, U2> where U0: SystemData<'a>, U1: SystemData<'a>, U2: SystemData<'a> { f0: U0, f1: Write<'a, D14, Hc<D25>>, f2: Write<'a, N3, PanicHandler>, f3: Read<'a, N5, PanicHandler>, f4: Option<ReadExpect<'a, N18>>, f5: Option<WriteExpect<'a, N22>>, f6: U1, f7: Write<'a, D15, Hc<D14>>, f8: U2, f9: Write<'a, D25>, }
-shredh::zoo_case!(c2062, 2062, 'a, Z2062_0<'a, Write<'a, D2, DefaultProvider>, Option<Read<'a, N24>>, WriteExpect<'a, N1>>);
-#[derive(SystemData)] pub struct Z2070_0<'a, U0: SystemData<'a>, U1: SystemData<'a>, U2: SystemData<'a>>(pub Read<'a, N5, PanicHandler>, pub U0, pub U1, pub Read<'a, D1, PanicHandler>, pub U2, pub PhantomData<str>, pub ());
-shredh::zoo_case!(c2070, 2070, 'a, Z2070_0<'a, PhantomData<str>, Option<ReadExpect<'a, N0>>, PhantomData<fn() -> N2>>);
-#[derive(SystemData)] pub struct Z2078_1<'a>(pub Option<WriteExpect<'a, D1>>);
-#[derive(SystemData)] pub struct Z2078_2<'a> { f0: PhantomData<&'a u8>, }
-#[derive(SystemData)] pub struct Z2078_0<'a, T0, T1, T2> where T0: Debug + Resource + for<'b> Hrtb<'b>, T1: Resource, T2: Debug + Resource + for<'b> Hrtb<'b> { f0: PhantomData<[u32]>, f1: Z2078_1<'a>, f2: Write<'a, D1, DefaultProvider>, f3: Write<'a, T0, Hc<D1>>, f4: ((), ), f5: Option<Read<'a, N0>>, f6: Z2078_2<'a>, f7: (), f8: Read<'a, T1, Hc<D4>>, f9: Write<'a, T2, Hc<D2>>, f10: Write<'a, D4, PanicHandler>, f11: Write<'a, D3, Hc<D2>>, }
-shredh::zoo_case!(c2078, 2078, 'a, Z2078_0<'a, D3, D1, D1>);
-#[derive(SystemData)] pub struct Z2086_0<'a, U0, U1, U2>(pub Read<'a, D2, PanicHandler>, pub U0, pub U1, pub U2, pub Option<ReadExpect<'a, D3>>, pub PhantomData<[u32]>, pub Read<'a, D0>, pub ReadExpect<'a, D3>, pub Read<'a, D0, DefaultProvider>, pub Read<'a, D2>, pub (), pub Read<'a, D0>) where U0: SystemData<'a>, U1: SystemData<'a>, U2: SystemData<'a>;
-shredh::zoo_case!(c2086, 2086, 'a, Z2086_0<'a, Option<Read<'a, D3>>, Read<'a, D2>, PhantomData<dyn Send>>);
-pub static CASES: &[&shredh::zoo::Ops] = &[
-    &c6::OPS,
-    &c14::OPS,
-    &c22::OPS,
-    &c30::OPS,
-    &c38::OPS,
-    &c46::OPS,
-    &c54::OPS,
-    &c62::OPS,
-    &c70::OPS,
-    &c78::OPS,
-    &c86::OPS,
-    &c94::OPS,
-    &c102::OPS,
-    &c110::OPS,
-    &c118::OPS,
-    &c126::OPS,
-    &c134::OPS,
-    &c142::OPS,
-    &c150::OPS,
-    &c158::OPS,
-    &c166::OPS,
-    &c174::OPS,
-    &c182::OPS,
-    &c190::OPS,
-    &c198::OPS,
-    &c206::OPS,
-    &c214::OPS,
-    &c222::OPS,
-    &c230::OPS,
-    &c238::OPS,
-    &c246::OPS,
-    &c254::OPS,
-    &c262::OPS,
-    &c270::OPS,
-    &c278::OPS,
-    &c286::OPS,
-    &c294::OPS,
-    &c302::OPS,
-    &c310::OPS,
-    &c318::OPS,
-    &c326::OPS,
-    &c334::OPS,
-    &c342::OPS,
-    &c350::OPS,
-    &c358::OPS,
-    &c366::OPS,
-    &c374::OPS,
-    &c382::OPS,
-    &c390::OPS,
-    &c398::OPS,
-    &c406::OPS,
-    &c414::OPS,
-    &c422::OPS,
-    &c430::OPS,
-    &c438::OPS,
-    &c446::OPS,
-    &c454::OPS,
-    &c462::OPS,
-    &c470::OPS,
-    &c478::OPS,
-    &c486::OPS,
-    &c494::OPS,
-    &c502::OPS,
-    &c510::OPS,
-    &c518::OPS,
-    &c526::OPS,
-    &c534::OPS,
-    &c542::OPS,
-    &c550::OPS,
-    &c558::OPS,
-    &c566::OPS,
-    &c574::OPS,
-    &c582::OPS,
-    &c590::OPS,
-    &c598::OPS,
-    &c606::OPS,
-    &c614::OPS,
-    &c622::OPS,
-    &c630::OPS,
-    &c638::OPS,
-    &c646::OPS,
-    &c654::OPS,
-    &c662::OPS,
-    &c670::OPS,
-    &c678::OPS,
-    &c686::OPS,
-    &c694::OPS,
-    &c702::OPS,
-    &c710::OPS,
-    &c718::OPS,
-    &c726::OPS,
-    &c734::OPS,
-    &c742::OPS,
-    &c750::OPS,
-    &c758::OPS,
-    &c766::OPS,
-    &c774::OPS,
-    &c782::OPS,
-    &c790::OPS,
-    &c798::OPS,
-    &c806::OPS,
-    &c814::OPS,
-    &c822::OPS,
-    &c830::OPS,
-    &c838::OPS,
-    &c846::OPS,
-    &c854::OPS,
-    &c862::OPS,
-    &c870::OPS,
-    &c878::OPS,
-    &c886::OPS,
-    &c894::OPS,
-    &c902::OPS,
-    &c910::OPS,
-    &c918::OPS,
-    &c926::OPS,
-    &c934::OPS,
-    &c942::OPS,
-    &c950::OPS,
-    &c958::OPS,
-    &c966::OPS,
-    &c974::OPS,
-    &c982::OPS,
-    &c990::OPS,
-    &c998::OPS,
-    &c1006::OPS,
-    &c1014::OPS,
-    &c1022::OPS,
-    &c1030::OPS,
-    &c1038::OPS,
-    &c1046::OPS,
-    &c1054::OPS,
-    &c1062::OPS,
-    &c1070::OPS,
-    &c1078::OPS,
-    &c1086::OPS,
-    &c1094::OPS,
-    &c1102::OPS,
-    &c1110::OPS,
-    &c1118::OPS,
-    &c1126::OPS,
-    &c1134::OPS,
-    &c1142::OPS,
-    &c1150::OPS,
-    &c1158::OPS,
-    &c1166::OPS,
-    &c1174::OPS,
-    &c1182::OPS,
-    &c1190::OPS,
-    &c1198::OPS,
-    &c1206::OPS,
-    &c1214::OPS,
-    &c1222::OPS,
-    &c1230::OPS,
-    &c1238::OPS,
-    &c1246::OPS,
-    &c1254::OPS,
-    &c1262::OPS,
-    &c1270::OPS,
-    &c1278::OPS,
-    &c1286::OPS,
-    &c1294::OPS,
-    &c1302::OPS,
-    &c1310::OPS,
-    &c1318::OPS,
-    &c1326::OPS,
-    &c1334::OPS,
-    &c1342::OPS,
-    &c1350::OPS,
-    &c1358::OPS,
-    &c1366::OPS,
-    &c1374::OPS,
-    &c1382::OPS,
-    &c1390::OPS,
-    &c1398::OPS,
-    &c1406::OPS,
-    &c1414::OPS,
-    &c1422::OPS,
-    &c1430::OPS,
-    &c1438::OPS,
-    &c1446::OPS,
-    &c1454::OPS,
-    &c1462::OPS,
-    &c1470::OPS,
-    &c1478::OPS,
-    &c1486::OPS,
-    &c1494::OPS,
-    &c1502::OPS,
-    &c1510::OPS,
-    &c1518::OPS,
-    &c1526::OPS,
-    &c1534::OPS,
-    &c1542::OPS,
-    &c1550::OPS,
-    &c1558::OPS,
-    &c1566::OPS,
-    &c1574::OPS,
-    &c1582::OPS,
-    &c1590::OPS,
-    &c1598::OPS,
-    &c1606::OPS,
-    &c1614::OPS,
-    &c1622::OPS,
-    &c1630::OPS,
-    &c1638::OPS,
-    &c1646::OPS,
-    &c1654::OPS,
-    &c1662::OPS,
-    &c1670::OPS,
-    &c1678::OPS,
-    &c1686::OPS,
-    &c1694::OPS,
-    &c1702::OPS,
-    &c1710::OPS,
-    &c1718::OPS,
-    &c1726::OPS,
-    &c1734::OPS,
-    &c1742::OPS,
-    &c1750::OPS,
-    &c1758::OPS,
-    &c1766::OPS,
-    &c1774::OPS,
-    &c1782::OPS,
-    &c1790::OPS,
-    &c1798::OPS,
-    &c1806::OPS,
-    &c1814::OPS,
-    &c1822::OPS,
-    &c1830::OPS,
-    &c1838::OPS,
-    &c1846::OPS,
-    &c1854::OPS,
-    &c1862::OPS,
-    &c1870::OPS,
-    &c1878::OPS,
-    &c1886::OPS,
-    &c1894::OPS,
-    &c1902::OPS,
-    &c1910::OPS,
-    &c1918::OPS,
-    &c1926::OPS,
-    &c1934::OPS,
-    &c1942::OPS,
-    &c1950::OPS,
-    &c1958::OPS,
-    &c1966::OPS,
-    &c1974::OPS,
-    &c1982::OPS,
-    &c1990::OPS,
-    &c1998::OPS,
-    &c2006::OPS,
-    &c2014::OPS,
-    &c2022::OPS,
-    &c2030::OPS,
-    &c2038::OPS,
-    &c2046::OPS,
-    &c2054::OPS,
-    &c2062::OPS,
-    &c2070::OPS,
-    &c2078::OPS,
-    &c2086::OPS,
-];
+// placeholder written by harness/gen/zoo.py (the real file is a build artefact of bin/check C06)
+pub const GEN_HASH: &str = "placeholder";
+pub static CASES: &[&shredh::zoo::Ops] = &[];
